@@ -128,3 +128,1390 @@ Proof.
   intros; rewrite val_share_eq by lia. pose proof P_pos.
   apply Z.mul_nonneg_nonneg; [lia | apply Z.div_pos; nia].
 Qed.
+
+(* ================================================================== shares of one allocation *)
+Fixpoint fsum (g : cval -> Z) (l : list cval) : Z :=
+  match l with [] => 0 | x :: r => g x + fsum g r end.
+
+Definition elig_list (thr h : Z) (vs : list cval) : list cval := filter (eligible thr h) vs.
+
+Lemma total_power_fsum : forall thr h vs, total_power thr h vs = fsum cv_pow (elig_list thr h vs).
+Proof.
+  intros thr h vs; induction vs as [|e r IH]; cbn [total_power elig_list filter fsum]; [reflexivity|].
+  fold (elig_list thr h r). destruct (eligible thr h e); cbn [fsum]; lia.
+Qed.
+
+Definition frac_of (total : Z) (x : cval) : Z := (cv_pow x * P) / total.
+
+Lemma fsum_frac_upper : forall total l, 0 < total -> Forall (fun x => 0 <= cv_pow x) l ->
+  total * fsum (frac_of total) l <= P * fsum cv_pow l.
+Proof.
+  intros total l Ht Hl; induction Hl as [|x r Hx Hr IH]; cbn [fsum]; [lia|].
+  unfold frac_of at 1. pose proof (Z.mul_div_le (cv_pow x * P) total Ht). lia.
+Qed.
+
+Lemma fsum_frac_lower : forall total l, 0 < total -> Forall (fun x => 0 <= cv_pow x) l ->
+  P * fsum cv_pow l - total * Z.of_nat (length l) <= total * fsum (frac_of total) l
+  /\ (l <> [] -> P * fsum cv_pow l - total * Z.of_nat (length l) < total * fsum (frac_of total) l).
+Proof.
+  intros total l Ht Hl; induction Hl as [|x r Hx Hr IH]; cbn [fsum length]; [split; [lia | congruence]|].
+  unfold frac_of at 1 3.
+  pose proof (Z.div_mod (cv_pow x * P) total ltac:(lia)) as Hdm.
+  pose proof (Z.mod_pos_bound (cv_pow x * P) total Ht) as Hm.
+  rewrite Nat2Z.inj_succ. destruct IH as [IH1 IH2]. split; [lia | intros _; lia].
+Qed.
+
+Lemma fsum_frac_nonneg : forall total l, 0 < total -> Forall (fun x => 0 <= cv_pow x) l -> 0 <= fsum (frac_of total) l.
+Proof.
+  intros total l Ht Hl; induction Hl as [|x r Hx Hr IH]; cbn [fsum]; [lia|].
+  unfold frac_of at 1. pose proof P_pos. assert (0 <= cv_pow x * P / total) by (apply Z.div_pos; nia). lia.
+Qed.
+
+(* ---- events *)
+Lemma mk_event_fields : forall env f c d thr total T x e, mk_event env f c d thr total T x = Some e ->
+  ev_h e = b_h env /\ ev_c e = c /\ ev_d e = d /\ ev_v e = cv_id x /\ ev_pow e = cv_pow x /\ ev_join e = cv_join x /\
+  ev_thr e = thr /\ ev_total e = total /\ ev_T e = T /\ ev_amt e = val_share T total (cv_pow x) /\
+  ev_comm e = dmul (ev_amt e) (ev_rate e) /\
+  (exists own, lookup (cv_id x) (b_staking env) = Some own /\
+     ev_rate e = match crate (c, cv_id x) (crates f) with Some r => r | None => own end) /\
+  memz (cv_id x) (b_fail_alloc env) = false.
+Proof.
+  intros env f c d thr total T x e H; unfold mk_event in H.
+  destruct (lookup (cv_id x) (b_staking env)) as [own|] eqn:El; [|discriminate].
+  destruct (memz (cv_id x) (b_fail_alloc env)) eqn:Em; [discriminate|].
+  inversion H; subst e; cbn. repeat split; try reflexivity. exists own; split; reflexivity.
+Qed.
+
+Lemma events_spec : forall env f c d thr total T vs evs, events env f c d thr total T vs = Some evs ->
+  Forall2 (fun x e => mk_event env f c d thr total T x = Some e) (elig_list thr (b_h env) vs) evs.
+Proof.
+  intros env f c d thr total T vs; induction vs as [|x r IH]; intros evs H; cbn [events] in H.
+  - inversion H; constructor.
+  - unfold elig_list; cbn [filter]; fold (elig_list thr (b_h env) r).
+    destruct (eligible thr (b_h env) x) eqn:El.
+    + destruct (mk_event env f c d thr total T x) as [e|] eqn:Em; [|discriminate].
+      destruct (events env f c d thr total T r) as [l|] eqn:Er; [|discriminate].
+      inversion H; subst evs. constructor; [exact Em | apply IH; reflexivity].
+    + apply IH; exact H.
+Qed.
+
+Lemma sum_amt_events : forall env f c d thr total T l evs,
+  Forall2 (fun x e => mk_event env f c d thr total T x = Some e) l evs ->
+  0 <= T -> 0 < total -> Forall (fun x => 0 <= cv_pow x) l ->
+  sum_amt evs = T * fsum (frac_of total) l /\ length evs = length l.
+Proof.
+  intros env f c d thr total T l evs H HT Ht; induction H as [|x e l evs Hxe Hr IH]; intros Hl.
+  - cbn; split; [lia | reflexivity].
+  - inversion Hl as [|? ? Hx Hl']; subst. destruct (IH Hl') as [IH1 IH2].
+    apply mk_event_fields in Hxe. destruct Hxe as (_ & _ & _ & _ & _ & _ & _ & _ & _ & Ha & _).
+    cbn [sum_amt fsum length]. rewrite Ha, IH1, IH2, val_share_eq by lia. unfold frac_of at 2. split; [ring | reflexivity].
+Qed.
+
+Lemma elig_list_pow : forall thr h vs, Forall (fun x => 0 <= cv_pow x) vs -> Forall (fun x => 0 <= cv_pow x) (elig_list thr h vs).
+Proof.
+  intros thr h vs H; unfold elig_list; rewrite Forall_forall in *; intros x Hx.
+  apply filter_In in Hx; destruct Hx; auto.
+Qed.
+
+(* dust of one allocation: what moved to the distribution account minus what was recorded for validators *)
+Lemma dust_bounds : forall env f c d thr T vs evs,
+  let total := total_power thr (b_h env) vs in
+  events env f c d thr total T vs = Some evs ->
+  0 <= T -> 0 < total -> Forall (fun x => 0 <= cv_pow x) vs ->
+  0 <= sum_amt evs /\ 0 <= dec_of_int T - sum_amt evs <= T * (Z.of_nat (length evs) - 1).
+Proof.
+  intros env f c d thr T vs evs total H HT Ht Hvs.
+  apply events_spec in H. pose proof (elig_list_pow thr (b_h env) vs Hvs) as Hl.
+  destruct (sum_amt_events _ _ _ _ _ _ _ _ _ H HT Ht Hl) as [Hs Hlen].
+  pose proof (fsum_frac_upper total _ Ht Hl) as Hu.
+  pose proof (fsum_frac_lower total _ Ht Hl) as [_ Hlo].
+  pose proof (fsum_frac_nonneg total _ Ht Hl) as Hnn.
+  assert (Htp : fsum cv_pow (elig_list thr (b_h env) vs) = total) by (symmetry; apply total_power_fsum).
+  rewrite Htp in Hu, Hlo.
+  assert (Hne : elig_list thr (b_h env) vs <> []).
+  { intros E; rewrite E in Htp; cbn in Htp; lia. }
+  specialize (Hlo Hne). rewrite Hs, Hlen. unfold dec_of_int.
+  set (F := fsum (frac_of total) (elig_list thr (b_h env) vs)) in *.
+  set (n := Z.of_nat (length (elig_list thr (b_h env) vs))) in *.
+  assert (F <= P) by nia. assert (P - n < F) by nia.
+  split; [nia | split; nia].
+Qed.
+
+(* ---- paying a list of events *)
+Lemma get_pay_outst : forall evs m v d,
+  get (v, d) (pay_outst evs m) =
+  get (v, d) m + fold_right (fun e a => (if (ev_v e =? v) && (ev_d e =? d) then ev_amt e else 0) + a) 0 evs.
+Proof.
+  induction evs as [|e r IH]; intros m v d; cbn [pay_outst fold_right]; [lia|].
+  rewrite IH, get_add; keq. rewrite (Z.eqb_sym v), (Z.eqb_sym d). destruct ((ev_v e =? v) && (ev_d e =? d)); lia.
+Qed.
+
+Lemma get_pay_comm : forall evs m v d,
+  get (v, d) (pay_comm evs m) =
+  get (v, d) m + fold_right (fun e a => (if (ev_v e =? v) && (ev_d e =? d) then ev_comm e else 0) + a) 0 evs.
+Proof.
+  induction evs as [|e r IH]; intros m v d; cbn [pay_comm fold_right]; [lia|].
+  rewrite IH, get_add; keq. rewrite (Z.eqb_sym v), (Z.eqb_sym d). destruct ((ev_v e =? v) && (ev_d e =? d)); lia.
+Qed.
+
+Lemma total_pay_outst : forall evs m d0 d, Forall (fun e => ev_d e = d0) evs ->
+  total d (pay_outst evs m) = total d m + (if d0 =? d then sum_amt evs else 0).
+Proof.
+  induction evs as [|e r IH]; intros m d0 d H; cbn [pay_outst sum_amt]; [destruct (d0 =? d); lia|].
+  inversion H as [|? ? He Hr]; subst. rewrite (IH _ (ev_d e) d Hr), total_add. destruct (ev_d e =? d); lia.
+Qed.
+
+Lemma events_d : forall env f c d thr total T vs evs, events env f c d thr total T vs = Some evs ->
+  Forall (fun e => ev_d e = d) evs.
+Proof.
+  intros. apply events_spec in H. induction H as [|x e l evs Hxe Hr IH]; constructor; auto.
+  apply mk_event_fields in Hxe; tauto.
+Qed.
+
+
+(* ================================================================== one allocation *)
+Definition m_zero_funded (c d A : Z) (m : money) : money :=
+  let toSend := dtrunc_int A in
+  mkM (move POOL DISTR d toSend (bank m)) (add (0, d) (dec_of_int toSend) (cpool m))
+      (outst m) (comm m) (add (c, d) (A - dec_of_int toSend - A) (alloc m))
+      (g_cred m) (g_pv m) (add (c, d) (dec_of_int toSend) (g_pc m)) (g_dust m) (g_forf m) (g_mint m) (log m).
+Definition m_zero_forfeit (c d A : Z) (m : money) : money :=
+  let toSend := dtrunc_int A in
+  mkM (bank m) (cpool m) (outst m) (comm m) (add (c, d) (A - dec_of_int toSend - A) (alloc m))
+      (g_cred m) (g_pv m) (g_pc m) (g_dust m) (add (c, d) (dec_of_int toSend) (g_forf m)) (g_mint m) (log m).
+Definition m_paid (c d A tax : Z) (evs : list event) (m : money) : money :=
+  let vr := dmul_trunc A (dsub (dec_of_int 1) tax) in
+  let remaining := dsub A vr in
+  let vrT := dtrunc_int vr in
+  let remR := dtrunc_int remaining in
+  mkM (move POOL DISTR d remR (move POOL DISTR d vrT (bank m)))
+      (add (0, d) (dec_of_int remR) (cpool m))
+      (pay_outst evs (outst m)) (pay_comm evs (comm m))
+      (add (c, d) ((vr - dec_of_int vrT) + (remaining - dec_of_int remR) - A) (alloc m))
+      (g_cred m) (add (c, d) (sum_amt evs) (g_pv m)) (add (c, d) (dec_of_int remR) (g_pc m))
+      (add (c, d) (dec_of_int vrT - sum_amt evs) (g_dust m)) (g_forf m) (g_mint m) (log m ++ evs).
+
+Lemma some_inj : forall {A} (x y : A), Some x = Some y -> x = y.
+Proof. intros A x y H; congruence. Qed.
+
+Lemma alloc_body_cases : forall env f c d m m', alloc_body env f c d m = Some m' ->
+  let A := get (c, d) (alloc m) in
+  let vs := lookup_list c (valsets f) in
+  let thr := epochs f * bpe f in
+  let total := total_power thr (b_h env) vs in
+  A <> 0 /\ has_chain c f = true /\
+  ((total = 0 /\ ((dtrunc_int A <= get (POOL, d) (bank m) /\ m' = m_zero_funded c d A m) \/ m' = m_zero_forfeit c d A m))
+   \/
+   (total <> 0 /\ b_fail_tax env = false /\
+    let vr := dmul_trunc A (dsub (dec_of_int 1) (b_tax env)) in
+    let vrT := dtrunc_int vr in
+    let remR := dtrunc_int (dsub A vr) in
+    exists evs, (if vrT =? 0 then Some [] else events env f c d thr total vrT vs) = Some evs /\
+                vrT <= get (POOL, d) (bank m) /\ remR <= get (POOL, d) (bank m) - vrT /\
+                m' = m_paid c d A (b_tax env) evs m)).
+Proof.
+  intros env f c d m m' H; unfold alloc_body in H; cbv zeta.
+  destruct (get (c, d) (alloc m) =? 0) eqn:EA; [discriminate|]. apply Z.eqb_neq in EA.
+  destruct (has_chain c f) eqn:Ech; cbn [negb] in H; [|discriminate].
+  split; [exact EA | split; [reflexivity|]].
+  destruct (total_power (epochs f * bpe f) (b_h env) (lookup_list c (valsets f)) =? 0) eqn:Et.
+  - apply Z.eqb_eq in Et. left; split; [exact Et|].
+    destruct (negb (negb (dtrunc_int (get (c, d) (alloc m)) =? 0) && memz d (b_fail_fund env)) &&
+              (dtrunc_int (get (c, d) (alloc m)) <=? get (POOL, d) (bank m))) eqn:Ef.
+    + apply andb_true_iff in Ef; destruct Ef as [_ Ef]; apply Z.leb_le in Ef.
+      left; split; [exact Ef | inversion H; reflexivity].
+    + right; inversion H; reflexivity.
+  - apply Z.eqb_neq in Et. right; split; [exact Et|].
+    destruct (b_fail_tax env); [discriminate|]. split; [reflexivity|].
+    match type of H with (if ?b then _ else _) = _ => destruct b eqn:Es; [discriminate|] end.
+    apply orb_false_iff in Es; destruct Es as [_ Es]; apply Z.ltb_ge in Es.
+    match type of H with match ?x with _ => _ end = _ => destruct x as [evs|] eqn:Ee; [|discriminate] end.
+    match type of H with (if ?b then _ else _) = _ => destruct b eqn:Er; [discriminate|] end.
+    apply orb_false_iff in Er; destruct Er as [_ Er]; apply Z.ltb_ge in Er.
+    exists evs. split. reflexivity. split. exact Es. split. exact Er. apply some_inj in H. rewrite <- H. reflexivity.
+Qed.
+
+
+(* ================================================================== provider invariants *)
+Definition acct_ok (m : money) : Prop := forall c d,
+  get (c, d) (g_cred m) =
+  get (c, d) (alloc m) + get (c, d) (g_pv m) + get (c, d) (g_pc m) + get (c, d) (g_dust m) + get (c, d) (g_forf m).
+Definition bank_ok (m : money) : Prop := forall d,
+  get (POOL, d) (bank m) + get (DISTR, d) (bank m) + get (OTHER, d) (bank m) = get (0, d) (g_mint m).
+Definition distr_ok (m : money) : Prop := forall d,
+  dec_of_int (get (DISTR, d) (bank m)) = total d (outst m) + get (0, d) (cpool m) + total d (g_dust m).
+Definition link_ok (m : money) : Prop := forall d,
+  total d (outst m) = total d (g_pv m) /\ get (0, d) (cpool m) = total d (g_pc m).
+Definition nonneg_ok (m : money) : Prop := forall c d,
+  0 <= get (c, d) (alloc m) /\ 0 <= get (c, d) (g_pv m) /\ 0 <= get (c, d) (g_pc m) /\
+  0 <= get (c, d) (g_dust m) /\ 0 <= get (c, d) (g_forf m).
+Definition pool_ok (m : money) : Prop := forall d, 0 <= get (POOL, d) (bank m).
+
+Definition pinv (m : money) : Prop := acct_ok m /\ bank_ok m /\ distr_ok m /\ link_ok m.
+Definition ninv (m : money) : Prop := nonneg_ok m /\ pool_ok m.
+
+Definition env_wf (env : benv) : Prop := 0 <= b_tax env <= P.
+Definition conf_wf (f : conf) : Prop :=
+  forall c, Forall (fun x => 0 <= cv_pow x) (lookup_list c (valsets f)).
+
+Ltac getadd := rewrite ?get_add, ?get_move, ?total_add; keq.
+
+Lemma pinv_zero_funded : forall c d A m, A = get (c, d) (alloc m) -> pinv m -> pinv (m_zero_funded c d A m).
+Proof.
+  intros c d A m HA (Ha & Hb & Hd & Hl). unfold m_zero_funded; cbv zeta.
+  set (t := dtrunc_int A) in *; clearbody t. repeat split; unfold acct_ok, bank_ok, distr_ok, link_ok in *; cbn [bank cpool outst comm alloc g_cred g_pv g_pc g_dust g_forf g_mint log].
+  - intros c' d'. getadd. specialize (Ha c' d'). destruct ((c' =? c) && (d' =? d)); lia.
+  - intros d'. getadd. specialize (Hb d'). unfold POOL, DISTR, OTHER in *. cbn [Z.eqb Pos.eqb andb].
+    destruct (d' =? d); cbn [andb]; lia.
+  - intros d'. getadd. specialize (Hd d'). unfold POOL, DISTR, dec_of_int in *. cbn [Z.eqb Pos.eqb andb].
+    rewrite ?(Z.eqb_sym d d'). destruct (d' =? d); cbn [andb]; lia.
+  - getadd. destruct (Hl d0) as [H1 _]. exact H1.
+  - getadd. destruct (Hl d0) as [_ H2]. cbn [Z.eqb Pos.eqb andb]. rewrite ?(Z.eqb_sym d d0). destruct (d0 =? d); lia.
+Qed.
+
+Lemma pinv_zero_forfeit : forall c d A m, pinv m -> pinv (m_zero_forfeit c d A m).
+Proof.
+  intros c d A m (Ha & Hb & Hd & Hl). unfold m_zero_forfeit; cbv zeta.
+  set (t := dtrunc_int A) in *; clearbody t.
+  repeat split; unfold acct_ok, bank_ok, distr_ok, link_ok in *; cbn [bank cpool outst comm alloc g_cred g_pv g_pc g_dust g_forf g_mint log]; auto.
+  - intros c' d'. getadd. specialize (Ha c' d'). destruct ((c' =? c) && (d' =? d)); lia.
+  - apply Hl.
+  - apply Hl.
+Qed.
+
+Lemma pinv_paid : forall c d A tax evs m, Forall (fun e => ev_d e = d) evs -> pinv m -> pinv (m_paid c d A tax evs m).
+Proof.
+  intros c d A tax evs m Hev (Ha & Hb & Hd & Hl). unfold m_paid; cbv zeta.
+  set (vr := dmul_trunc A (dsub (dec_of_int 1) tax)) in *; clearbody vr.
+  set (vrT := dtrunc_int vr) in *; clearbody vrT.
+  set (remR := dtrunc_int (dsub A vr)) in *; clearbody remR.
+  set (S := sum_amt evs) in *.
+  repeat split; unfold acct_ok, bank_ok, distr_ok, link_ok in *; cbn [bank cpool outst comm alloc g_cred g_pv g_pc g_dust g_forf g_mint log].
+  - intros c' d'. getadd. specialize (Ha c' d'). unfold dsub. destruct ((c' =? c) && (d' =? d)); lia.
+  - intros d'. getadd. specialize (Hb d'). unfold POOL, DISTR, OTHER in *. cbn [Z.eqb Pos.eqb andb].
+    destruct (d' =? d); cbn [andb]; lia.
+  - intros d'. getadd. rewrite (total_pay_outst evs _ d d' Hev). specialize (Hd d').
+    unfold POOL, DISTR, dec_of_int in *. cbn [Z.eqb Pos.eqb andb]. fold S.
+    rewrite ?(Z.eqb_sym d d'). destruct (d' =? d); cbn [andb]; lia.
+  - rewrite (total_pay_outst evs _ d d0 Hev). getadd. destruct (Hl d0) as [H1 _]. fold S. destruct (d =? d0); lia.
+  - getadd. destruct (Hl d0) as [_ H2]. cbn [Z.eqb Pos.eqb andb]. rewrite ?(Z.eqb_sym d d0). destruct (d0 =? d); lia.
+Qed.
+
+Lemma total_power_nonneg : forall thr h vs, Forall (fun x => 0 <= cv_pow x) vs -> 0 <= total_power thr h vs.
+Proof.
+  intros thr h vs H; induction H as [|x r Hx Hr IH]; cbn [total_power]; [lia|]. destruct (eligible thr h x); lia.
+Qed.
+
+Lemma paid_events_facts : forall env f c d thr T vs evs,
+  let total := total_power thr (b_h env) vs in
+  (if T =? 0 then Some [] else events env f c d thr total T vs) = Some evs ->
+  0 <= T -> total <> 0 -> Forall (fun x => 0 <= cv_pow x) vs ->
+  Forall (fun e => ev_d e = d) evs /\ 0 <= sum_amt evs /\
+  0 <= dec_of_int T - sum_amt evs <= T * (Z.of_nat (length evs) - 1).
+Proof.
+  intros env f c d thr T vs evs total H HT Ht Hvs.
+  destruct (T =? 0) eqn:ET.
+  - apply Z.eqb_eq in ET; subst T. apply some_inj in H; subst evs. cbn. unfold dec_of_int. repeat split; try lia. constructor.
+  - pose proof (total_power_nonneg thr (b_h env) vs Hvs) as Hnn. fold total in Hnn.
+    split; [eapply events_d; exact H|]. eapply dust_bounds; eauto. fold total. lia.
+Qed.
+
+Lemma ninv_zero_funded : forall c d A m, A = get (c, d) (alloc m) -> dtrunc_int A <= get (POOL, d) (bank m) ->
+  ninv m -> ninv (m_zero_funded c d A m).
+Proof.
+  intros c d A m HA Hle (Hn & Hp). unfold m_zero_funded; cbv zeta.
+  assert (HA0 : 0 <= A) by (subst A; apply Hn).
+  destruct (dtrunc_bounds A HA0) as [Ht Hc].
+  set (t := dtrunc_int A) in *; clearbody t. unfold dec_of_int in *.
+  split; unfold nonneg_ok, pool_ok in *; cbn [bank cpool outst comm alloc g_cred g_pv g_pc g_dust g_forf g_mint log].
+  - intros c' d'. getadd. specialize (Hn c' d'). destruct ((c' =? c) && (d' =? d)) eqn:E.
+    + apply andb_true_iff in E; destruct E as [E1 E2]; apply Z.eqb_eq in E1, E2; subst c' d'. rewrite <- HA in *. nia.
+    + tauto.
+  - intros d'. getadd. specialize (Hp d'). unfold POOL, DISTR in *. cbn [Z.eqb Pos.eqb andb].
+    destruct (d' =? d) eqn:E; cbn [andb]; [apply Z.eqb_eq in E; subst d'|]; lia.
+Qed.
+
+Lemma ninv_zero_forfeit : forall c d A m, A = get (c, d) (alloc m) -> ninv m -> ninv (m_zero_forfeit c d A m).
+Proof.
+  intros c d A m HA (Hn & Hp). unfold m_zero_forfeit; cbv zeta.
+  assert (HA0 : 0 <= A) by (subst A; apply Hn).
+  destruct (dtrunc_bounds A HA0) as [Ht Hc].
+  set (t := dtrunc_int A) in *; clearbody t. unfold dec_of_int in *.
+  split; unfold nonneg_ok, pool_ok in *; cbn [bank cpool outst comm alloc g_cred g_pv g_pc g_dust g_forf g_mint log]; [|exact Hp].
+  intros c' d'. getadd. specialize (Hn c' d'). destruct ((c' =? c) && (d' =? d)) eqn:E.
+  - apply andb_true_iff in E; destruct E as [E1 E2]; apply Z.eqb_eq in E1, E2; subst c' d'. rewrite <- HA in *. nia.
+  - tauto.
+Qed.
+
+Lemma ninv_paid : forall c d A tax evs m,
+  A = get (c, d) (alloc m) -> 0 <= tax <= P ->
+  let vr := dmul_trunc A (dsub (dec_of_int 1) tax) in
+  let vrT := dtrunc_int vr in
+  let remR := dtrunc_int (dsub A vr) in
+  vrT <= get (POOL, d) (bank m) -> remR <= get (POOL, d) (bank m) - vrT ->
+  0 <= sum_amt evs -> 0 <= dec_of_int vrT - sum_amt evs ->
+  ninv m -> ninv (m_paid c d A tax evs m).
+Proof.
+  intros c d A tax evs m HA Htax vr vrT remR H1 H2 HS HD (Hn & Hp). unfold m_paid; cbv zeta.
+  assert (HA0 : 0 <= A) by (subst A; apply Hn).
+  assert (Hvr : 0 <= vr <= A).
+  { apply dmul_trunc_bounds; [lia | unfold dsub, dec_of_int; lia]. }
+  destruct (dtrunc_bounds vr ltac:(lia)) as [Hv1 Hv2].
+  destruct (dtrunc_bounds (dsub A vr) ltac:(unfold dsub; lia)) as [Hr1 Hr2].
+  fold vr vrT remR. fold vrT in Hv1, Hv2. fold remR in Hr1, Hr2.
+  set (S := sum_amt evs) in *; clearbody S. clearbody remR. clearbody vrT. clearbody vr.
+  unfold dsub, dec_of_int in *.
+  split; unfold nonneg_ok, pool_ok in *; cbn [bank cpool outst comm alloc g_cred g_pv g_pc g_dust g_forf g_mint log].
+  - intros c' d'. getadd. specialize (Hn c' d'). destruct ((c' =? c) && (d' =? d)) eqn:E.
+    + apply andb_true_iff in E; destruct E as [E1 E2]; apply Z.eqb_eq in E1, E2; subst c' d'. rewrite <- HA in *. nia.
+    + tauto.
+  - intros d'. getadd. specialize (Hp d'). unfold POOL, DISTR in *. cbn [Z.eqb Pos.eqb andb].
+    destruct (d' =? d) eqn:E; cbn [andb]; [apply Z.eqb_eq in E; subst d'|]; lia.
+Qed.
+
+(* ---- the log *)
+Fixpoint log_amt (v d : Z) (l : list event) : Z :=
+  match l with [] => 0 | e :: r => (if (ev_v e =? v) && (ev_d e =? d) then ev_amt e else 0) + log_amt v d r end.
+Fixpoint log_comm (v d : Z) (l : list event) : Z :=
+  match l with [] => 0 | e :: r => (if (ev_v e =? v) && (ev_d e =? d) then ev_comm e else 0) + log_comm v d r end.
+
+Lemma log_amt_app : forall v d l1 l2, log_amt v d (l1 ++ l2) = log_amt v d l1 + log_amt v d l2.
+Proof. intros v d l1 l2; induction l1 as [|e r IH]; cbn [app log_amt]; lia. Qed.
+Lemma log_comm_app : forall v d l1 l2, log_comm v d (l1 ++ l2) = log_comm v d l1 + log_comm v d l2.
+Proof. intros v d l1 l2; induction l1 as [|e r IH]; cbn [app log_comm]; lia. Qed.
+Lemma log_amt_fold : forall v d l,
+  fold_right (fun e a => (if (ev_v e =? v) && (ev_d e =? d) then ev_amt e else 0) + a) 0 l = log_amt v d l.
+Proof. intros v d l; induction l as [|e r IH]; cbn [fold_right log_amt]; lia. Qed.
+Lemma log_comm_fold : forall v d l,
+  fold_right (fun e a => (if (ev_v e =? v) && (ev_d e =? d) then ev_comm e else 0) + a) 0 l = log_comm v d l.
+Proof. intros v d l; induction l as [|e r IH]; cbn [fold_right log_comm]; lia. Qed.
+
+Definition log_ok (m : money) : Prop := forall v d,
+  get (v, d) (outst m) = log_amt v d (log m) /\ get (v, d) (comm m) = log_comm v d (log m).
+
+(* an event is justified by the configuration f and the block environment env *)
+Definition denom_listed (f : conf) (c d : Z) : Prop := In d (registered f ++ lookup_list c (allowl f)).
+Definition justified (f : conf) (env : benv) (e : event) : Prop :=
+  ev_h e = b_h env /\ ev_thr e = epochs f * bpe f /\
+  In (mkV (ev_v e) (ev_pow e) (ev_join e)) (lookup_list (ev_c e) (valsets f)) /\
+  ev_thr e <= ev_h e - ev_join e /\
+  ev_total e = total_power (ev_thr e) (ev_h e) (lookup_list (ev_c e) (valsets f)) /\
+  ev_amt e = val_share (ev_T e) (ev_total e) (ev_pow e) /\
+  (exists own, lookup (ev_v e) (b_staking env) = Some own /\
+     ev_rate e = match crate (ev_c e, ev_v e) (crates f) with Some r => r | None => own end) /\
+  ev_comm e = dmul (ev_amt e) (ev_rate e).
+
+Lemma Forall2_right : forall {A B} (R : A -> B -> Prop) l1 l2, Forall2 R l1 l2 ->
+  Forall (fun b => exists a, In a l1 /\ R a b) l2.
+Proof.
+  intros A B R l1 l2 H; induction H as [|a b l1 l2 Hab Hr IH]; constructor.
+  - exists a; split; [left; reflexivity | exact Hab].
+  - eapply Forall_impl; [|exact IH]. intros b' (a' & Hin & HR); exists a'; split; [right; exact Hin | exact HR].
+Qed.
+
+Lemma events_justified : forall env f c d T evs,
+  let vs := lookup_list c (valsets f) in
+  let thr := epochs f * bpe f in
+  let total := total_power thr (b_h env) vs in
+  events env f c d thr total T vs = Some evs ->
+  Forall (fun e => justified f env e /\ ev_c e = c /\ ev_d e = d /\ ev_T e = T) evs.
+Proof.
+  intros env f c d T evs vs thr total H. apply events_spec in H. apply Forall2_right in H.
+  eapply Forall_impl; [|exact H]. intros e (x & Hin & Hm).
+  unfold elig_list in Hin; apply filter_In in Hin; destruct Hin as [Hin Hel].
+  apply mk_event_fields in Hm. destruct Hm as (Hh & Hc & Hd & Hv & Hp & Hj & Hthr & Htot & HT & Ha & Hco & Hr & _).
+  unfold eligible in Hel; apply Z.leb_le in Hel.
+  unfold justified. rewrite Hh, Hc, Hd, Hv, Hp, Hj, Hthr, Htot, HT. destruct x as [xi xp xj]; cbn [cv_id cv_pow cv_join] in *.
+  repeat split; auto.
+Qed.
+
+(* ---- alloc_body / alloc_one / begin_block preserve the invariants *)
+Lemma alloc_body_inv : forall env f c d m m', alloc_body env f c d m = Some m' ->
+  (pinv m -> pinv m') /\
+  (env_wf env -> conf_wf f -> ninv m -> ninv m') /\
+  (log_ok m -> log_ok m') /\
+  (exists new, log m' = log m ++ new /\ Forall (fun e => justified f env e /\ ev_c e = c /\ ev_d e = d) new).
+Proof.
+  intros env f c d m m' H. apply alloc_body_cases in H. cbv zeta in H.
+  destruct H as (HA & Hch & [(Ht & [(Hle & Hm) | Hm]) | (Ht & Hft & evs & Hev & H1 & H2 & Hm)]); subst m'.
+  - split; [|split; [|split]].
+    + intros Hp; apply pinv_zero_funded; [reflexivity | exact Hp].
+    + intros _ _ Hn; apply ninv_zero_funded; [reflexivity | exact Hle | exact Hn].
+    + intros Hl; exact Hl.
+    + exists []; rewrite app_nil_r; split; [reflexivity | constructor].
+  - split; [|split; [|split]].
+    + intros Hp; apply pinv_zero_forfeit; exact Hp.
+    + intros _ _ Hn; apply ninv_zero_forfeit; [reflexivity | exact Hn].
+    + intros Hl; exact Hl.
+    + exists []; rewrite app_nil_r; split; [reflexivity | constructor].
+  - set (A := get (c, d) (alloc m)) in *.
+    set (vr := dmul_trunc A (dsub (dec_of_int 1) (b_tax env))) in *.
+    set (vrT := dtrunc_int vr) in *.
+    set (vs := lookup_list c (valsets f)) in *.
+    set (thr := epochs f * bpe f) in *.
+    set (total := total_power thr (b_h env) vs) in *.
+    assert (Hjust : Forall (fun e => justified f env e /\ ev_c e = c /\ ev_d e = d) evs).
+    { destruct (vrT =? 0); [apply some_inj in Hev; subst evs; constructor|].
+      eapply Forall_impl; [|apply (events_justified env f c d vrT evs Hev)]. intros e (Hj1 & Hj2 & Hj3 & _); split; [exact Hj1 | split; [exact Hj2 | exact Hj3]]. }
+    assert (Hd : Forall (fun e => ev_d e = d) evs) by (eapply Forall_impl; [|exact Hjust]; intros e (_ & _ & Hj3); exact Hj3).
+    split; [|split; [|split]].
+    + intros Hp; apply pinv_paid; [exact Hd | exact Hp].
+    + intros Hew Hcw Hn.
+      assert (HA0 : 0 <= A) by (destruct Hn as [Hn _]; apply Hn).
+      assert (Hvr : 0 <= vr <= A) by (apply dmul_trunc_bounds; [lia | unfold env_wf in Hew; unfold dsub, dec_of_int; lia]).
+      destruct (dtrunc_bounds vr ltac:(lia)) as [Hv1 _]. fold vrT in Hv1.
+      destruct (paid_events_facts env f c d thr vrT vs evs Hev Hv1 Ht (Hcw c)) as (_ & HS & HD & _).
+      apply ninv_paid; auto.
+    + intros Hl v d'. unfold m_paid; cbv zeta; cbn [outst comm log].
+      rewrite get_pay_outst, get_pay_comm, log_amt_fold, log_comm_fold, log_amt_app, log_comm_app.
+      destruct (Hl v d') as [Ho Hc]. lia.
+    + exists evs. split; [reflexivity | exact Hjust].
+Qed.
+
+Definition mstep (env : benv) (f : conf) (R : event -> Prop) (m m' : money) : Prop :=
+  (pinv m -> pinv m') /\
+  (env_wf env -> conf_wf f -> ninv m -> ninv m') /\
+  (log_ok m -> log_ok m') /\
+  (exists new, log m' = log m ++ new /\ Forall R new).
+
+Lemma mstep_refl : forall env f R m, mstep env f R m m.
+Proof.
+  intros; unfold mstep; repeat (split; [tauto|]). exists []; rewrite app_nil_r; split; [reflexivity | constructor].
+Qed.
+
+Lemma mstep_trans : forall env f R m1 m2 m3, mstep env f R m1 m2 -> mstep env f R m2 m3 -> mstep env f R m1 m3.
+Proof.
+  intros env f R m1 m2 m3 (A1 & B1 & C1 & n1 & L1 & F1) (A2 & B2 & C2 & n2 & L2 & F2).
+  unfold mstep; repeat (split; [tauto|]). exists (n1 ++ n2). rewrite L2, L1, app_assoc. split; [reflexivity|].
+  apply Forall_app; split; assumption.
+Qed.
+
+Lemma mstep_weaken : forall env f (R R' : event -> Prop) m m', (forall e, R e -> R' e) -> mstep env f R m m' -> mstep env f R' m m'.
+Proof.
+  intros env f R R' m m' HR (A1 & B1 & C1 & n1 & L1 & F1). unfold mstep; repeat (split; [tauto|]).
+  exists n1; split; [exact L1 | eapply Forall_impl; [exact HR | exact F1]].
+Qed.
+
+Lemma mstep_fold : forall {X} env f R (g : money -> X -> money) (l : list X),
+  (forall x a, In x l -> mstep env f R a (g a x)) -> forall a, mstep env f R a (fold_left g l a).
+Proof.
+  intros X env f R g l; induction l as [|x r IH]; intros H a; cbn [fold_left]; [apply mstep_refl|].
+  eapply mstep_trans; [apply H; left; reflexivity | apply IH; intros y b Hy; apply H; right; exact Hy].
+Qed.
+
+Definition listed (f : conf) (e : event) : Prop :=
+  (exists i, In i (cons f) /\ ci_id i = ev_c e /\ ci_client i = true) /\ denom_listed f (ev_c e) (ev_d e).
+
+Lemma alloc_one_mstep : forall env f c m d,
+  mstep env f (fun e => justified f env e /\ ev_c e = c /\ ev_d e = d) m (alloc_one env f c m d).
+Proof.
+  intros env f c m d; unfold alloc_one. destruct (alloc_body env f c d m) as [m'|] eqn:E; [|apply mstep_refl].
+  destruct (alloc_body_inv _ _ _ _ _ _ E) as (A & B & C & D). unfold mstep; tauto.
+Qed.
+
+Lemma begin_block_mstep : forall env f m,
+  mstep env f (fun e => justified f env e /\ listed f e) m (begin_block env f m).
+Proof.
+  intros env f m; unfold begin_block. destruct (1 <? b_h env); [|apply mstep_refl].
+  apply mstep_fold. intros i a Hi. unfold alloc_consumer. destruct (ci_client i) eqn:Ecl; [|apply mstep_refl].
+  apply mstep_fold. intros d b Hd.
+  eapply mstep_weaken; [|apply alloc_one_mstep]. cbv beta. intros e (Hj & Hc & Hdd). split; [exact Hj|].
+  unfold listed, denom_listed. rewrite Hc, Hdd. split; [exists i; auto | exact Hd].
+Qed.
+
+(* ================================================================== consumer chain *)
+Definition row4 (b : kmap) (d : Z) : Z := get (FC, d) b + get (CR, d) b + get (TS, d) b + get (ES, d) b.
+Definition bank_nonneg (b : kmap) : Prop := forall a d, 0 <= get (a, d) b.
+
+Lemma split_denom_get : forall frac b d a d',
+  get (a, d') (split_denom frac b d) =
+  if d' =? d then
+    (if a =? FC then 0
+     else if a =? CR then get (CR, d) b + cons_share (get (FC, d) b) frac
+     else if a =? TS then get (TS, d) b + (get (FC, d) b - cons_share (get (FC, d) b) frac)
+     else get (a, d) b)
+  else get (a, d') b.
+Proof.
+  intros frac b d a d'; unfold split_denom; cbv zeta. rewrite !get_move; keq.
+  unfold FC, CR, TS. destruct (d' =? d) eqn:Ed.
+  - apply Z.eqb_eq in Ed; subst d'. rewrite !andb_true_r.
+    destruct (a =? 0) eqn:E0; [apply Z.eqb_eq in E0; subst a; cbn; lia|].
+    destruct (a =? 1) eqn:E1; [apply Z.eqb_eq in E1; subst a; cbn; lia|].
+    destruct (a =? 2) eqn:E2; [apply Z.eqb_eq in E2; subst a; cbn; lia|]. lia.
+  - rewrite !andb_false_r. lia.
+Qed.
+
+Lemma split_denom_nonneg : forall frac b d, 0 <= frac <= P -> bank_nonneg b -> bank_nonneg (split_denom frac b d).
+Proof.
+  intros frac b d Hf Hb a d'. rewrite split_denom_get.
+  pose proof (cons_share_bounds (get (FC, d) b) frac (Hb FC d) Hf) as Hs.
+  pose proof (Hb CR d); pose proof (Hb TS d); pose proof (Hb a d); pose proof (Hb a d').
+  destruct (d' =? d); [|lia]. destruct (a =? FC); [lia|]. destruct (a =? CR); [lia|]. destruct (a =? TS); lia.
+Qed.
+
+Lemma split_denom_row4 : forall frac b d d', row4 (split_denom frac b d) d' = row4 b d'.
+Proof.
+  intros frac b d d'; unfold row4. rewrite !split_denom_get. unfold FC, CR, TS, ES; cbn [Z.eqb Pos.eqb].
+  destruct (d' =? d) eqn:Ed; [apply Z.eqb_eq in Ed; subst d'|]; lia.
+Qed.
+
+Lemma dist_nonneg : forall frac denoms b, 0 <= frac <= P -> bank_nonneg b -> bank_nonneg (distribute_internally frac denoms b).
+Proof.
+  intros frac denoms; unfold distribute_internally; induction denoms as [|x r IH]; intros b Hf Hb; cbn [fold_left]; [exact Hb|].
+  apply IH; [exact Hf | apply split_denom_nonneg; assumption].
+Qed.
+
+Lemma dist_row4 : forall frac denoms b d, row4 (distribute_internally frac denoms b) d = row4 b d.
+Proof.
+  intros frac denoms; unfold distribute_internally; induction denoms as [|x r IH]; intros b d; cbn [fold_left]; [reflexivity|].
+  rewrite IH; apply split_denom_row4.
+Qed.
+
+Lemma dist_get_notin : forall frac denoms b a d, ~ In d denoms -> get (a, d) (distribute_internally frac denoms b) = get (a, d) b.
+Proof.
+  intros frac denoms; unfold distribute_internally; induction denoms as [|x r IH]; intros b a d Hn; cbn [fold_left]; [reflexivity|].
+  rewrite IH by (intros H; apply Hn; right; exact H). rewrite split_denom_get.
+  destruct (d =? x) eqn:E; [apply Z.eqb_eq in E; subst; exfalso; apply Hn; left; reflexivity | reflexivity].
+Qed.
+
+(* every denom of the fee collector is split exactly once *)
+Lemma dist_get_in : forall frac denoms b a d, NoDup denoms -> In d denoms ->
+  get (a, d) (distribute_internally frac denoms b) =
+  if a =? FC then 0
+  else if a =? CR then get (CR, d) b + cons_share (get (FC, d) b) frac
+  else if a =? TS then get (TS, d) b + (get (FC, d) b - cons_share (get (FC, d) b) frac)
+  else get (a, d) b.
+Proof.
+  intros frac denoms; induction denoms as [|x r IH]; intros b a d Hnd Hin; [contradiction|].
+  inversion Hnd as [|? ? Hx Hr]; subst. change (distribute_internally frac (x :: r) b) with (distribute_internally frac r (split_denom frac b x)).
+  destruct (Z.eq_dec d x) as [->|Hne].
+  - rewrite dist_get_notin by exact Hx. rewrite split_denom_get, Z.eqb_refl. reflexivity.
+  - destruct Hin as [->|Hin]; [congruence|]. rewrite (IH _ a d Hr Hin). rewrite !split_denom_get.
+    assert (E : (d =? x) = false) by (apply Z.eqb_neq; exact Hne). rewrite E. reflexivity.
+Qed.
+
+(* ---- transmission *)
+Fixpoint qsum (d : Z) (q : list (Z * Z)) : Z :=
+  match q with [] => 0 | (d', a) :: r => (if d' =? d then a else 0) + qsum d r end.
+
+Lemma qsum_app : forall d q1 q2, qsum d (q1 ++ q2) = qsum d q1 + qsum d q2.
+Proof. intros d q1 q2; induction q1 as [|[d' a] r IH]; cbn [app qsum]; lia. Qed.
+
+Lemma send_loop_spec : forall fail allowed b q b' q', send_loop fail allowed b q = Some (b', q') ->
+  bank_nonneg b ->
+  bank_nonneg b' /\
+  (forall d, get (FC, d) b' = get (FC, d) b /\ get (CR, d) b' = get (CR, d) b /\
+             get (TS, d) b' + get (ES, d) b' = get (TS, d) b + get (ES, d) b /\
+             get (ES, d) b <= get (ES, d) b') /\
+  (forall d, In d allowed -> get (TS, d) b' = 0 /\ get (ES, d) b' = get (ES, d) b + get (TS, d) b) /\
+  (forall d, ~ In d allowed -> get (TS, d) b' = get (TS, d) b /\ get (ES, d) b' = get (ES, d) b) /\
+  (exists sent, q' = q ++ sent /\ (forall d, qsum d sent = get (ES, d) b' - get (ES, d) b) /\
+                Forall (fun s => In (fst s) allowed /\ 0 < snd s /\ memz (fst s) fail = false) sent).
+Proof.
+  intros fail allowed; induction allowed as [|x r IH]; intros b q b' q' H Hb; cbn [send_loop] in H.
+  - apply some_inj in H. inversion H; subst b' q'. split; [exact Hb|]. split; [intros; repeat split; lia|].
+    split; [intros d []|]. split; [intros; split; reflexivity|]. exists []; rewrite app_nil_r; split; [reflexivity|].
+    split; [intros; cbn; lia | constructor].
+  - destruct (get (TS, x) b =? 0) eqn:E0.
+    + apply Z.eqb_eq in E0. destruct (IH _ _ _ _ H Hb) as (N & A & B & C & sent & Q & S & F).
+      split; [exact N|]. split; [exact A|]. split.
+      { intros d [->|Hin]; [|apply B; exact Hin].
+        destruct (in_dec Z.eq_dec d r) as [Hi|Hi]; [apply B; exact Hi|]. destruct (C d Hi) as [C1 C2]. lia. }
+      split; [intros d Hn; apply C; intros Hi; apply Hn; right; exact Hi|].
+      exists sent; split; [exact Q|]. split; [exact S|]. eapply Forall_impl; [|exact F]. intros s (S1 & S2); split; [right; exact S1 | exact S2].
+    + apply Z.eqb_neq in E0. destruct (memz x fail) eqn:Ef; [discriminate|].
+      set (b1 := move TS ES x (get (TS, x) b) b) in *.
+      assert (G : forall a d, get (a, d) b1 =
+                 get (a, d) b + (if (a =? ES) && (d =? x) then get (TS, x) b else 0) - (if (a =? TS) && (d =? x) then get (TS, x) b else 0)).
+      { intros a d; unfold b1; rewrite get_move; keq; reflexivity. }
+      assert (Hb1 : bank_nonneg b1).
+      { intros a d; rewrite G. pose proof (Hb a d); pose proof (Hb TS x).
+        destruct ((a =? TS) && (d =? x)) eqn:E1.
+        - apply andb_true_iff in E1; destruct E1 as [E1 E2]; apply Z.eqb_eq in E1, E2; subst a d.
+          unfold TS, ES; cbn [Z.eqb Pos.eqb andb]. lia.
+        - destruct ((a =? ES) && (d =? x)); lia. }
+      destruct (IH _ _ _ _ H Hb1) as (N & A & B & C & sent & Q & S & F).
+      assert (GF : forall d, get (FC, d) b1 = get (FC, d) b) by (intros d; rewrite G; unfold FC, ES, TS; cbn [Z.eqb Pos.eqb andb]; lia).
+      assert (GC : forall d, get (CR, d) b1 = get (CR, d) b) by (intros d; rewrite G; unfold CR, ES, TS; cbn [Z.eqb Pos.eqb andb]; lia).
+      assert (GT : forall d, get (TS, d) b1 = if d =? x then 0 else get (TS, d) b).
+      { intros d; rewrite G; unfold ES, TS; cbn [Z.eqb Pos.eqb andb]. destruct (d =? x) eqn:E; [apply Z.eqb_eq in E; subst d|]; lia. }
+      assert (GE : forall d, get (ES, d) b1 = if d =? x then get (ES, d) b + get (TS, x) b else get (ES, d) b).
+      { intros d; rewrite G; unfold ES, TS; cbn [Z.eqb Pos.eqb andb]. destruct (d =? x) eqn:E; lia. }
+      pose proof (Hb TS x) as Hx0.
+      split; [exact N|]. split.
+      { intros d. destruct (A d) as (A1 & A2 & A3 & A4). rewrite GF, GC, GT, GE in *.
+        destruct (d =? x) eqn:E; [apply Z.eqb_eq in E; subst d|]; repeat split; lia. }
+      split.
+      { intros d Hin. destruct (in_dec Z.eq_dec d r) as [Hi|Hi].
+        - destruct (B d Hi) as [B1 B2]. rewrite GT, GE in B2. split; [exact B1|].
+          destruct (d =? x) eqn:E; [apply Z.eqb_eq in E; subst d|]; lia.
+        - destruct (C d Hi) as [C1 C2]. destruct Hin as [->|Hin]; [|contradiction]. rewrite GT, GE, Z.eqb_refl in *. lia. }
+      split.
+      { intros d Hn. assert (Hi : ~ In d r) by (intros Hi; apply Hn; right; exact Hi). destruct (C d Hi) as [C1 C2].
+        assert (E : (d =? x) = false) by (apply Z.eqb_neq; intros ->; apply Hn; left; reflexivity).
+        rewrite GT, GE, E in *. split; assumption. }
+      exists ((x, get (TS, x) b) :: sent). rewrite Q, <- app_assoc. split; [reflexivity|]. split.
+      { intros d; cbn [qsum]. rewrite S, GE. rewrite (Z.eqb_sym x d). destruct (d =? x) eqn:E; [apply Z.eqb_eq in E; subst d|]; lia. }
+      constructor; [cbn [fst snd]; split; [left; reflexivity | split; [lia | exact Ef]]|].
+      eapply Forall_impl; [|exact F]. intros s (S1 & S2); split; [right; exact S1 | exact S2].
+Qed.
+
+Definition same_config (c c' : cstate) : Prop :=
+  c_frac c' = c_frac c /\ c_bpdt c' = c_bpdt c /\ c_allowed c' = c_allowed c /\ c_denoms c' = c_denoms c /\
+  c_memo c' = c_memo c /\ c_chan c' = c_chan c /\ c_to_pool c' = c_to_pool c /\ c_dmap c' = c_dmap c.
+
+Lemma end_block_rd_spec : forall h open fail c,
+  bank_nonneg (c_bank c) -> 0 <= c_frac c <= P ->
+  let b1 := distribute_internally (c_frac c) (c_denoms c) (c_bank c) in
+  let c' := end_block_rd h open fail c in
+  same_config c c' /\ g_fees c' = g_fees c /\ g_deliv c' = g_deliv c /\
+  bank_nonneg (c_bank c') /\
+  (forall d, get (FC, d) (c_bank c') = get (FC, d) b1 /\ get (CR, d) (c_bank c') = get (CR, d) b1 /\
+             get (TS, d) (c_bank c') + get (ES, d) (c_bank c') = get (TS, d) b1 + get (ES, d) b1 /\
+             get (ES, d) b1 <= get (ES, d) (c_bank c')) /\
+  c_ltbh c' = (if should_send h (c_ltbh c) (c_bpdt c) then h else c_ltbh c) /\
+  ((c_bank c' = b1 /\ c_inflight c' = c_inflight c)
+   \/
+   (should_send h (c_ltbh c) (c_bpdt c) = true /\ open = true /\
+    (forall d, In d (c_allowed c) -> get (TS, d) (c_bank c') = 0 /\ get (ES, d) (c_bank c') = get (ES, d) b1 + get (TS, d) b1) /\
+    (forall d, ~ In d (c_allowed c) -> get (TS, d) (c_bank c') = get (TS, d) b1 /\ get (ES, d) (c_bank c') = get (ES, d) b1) /\
+    exists sent, c_inflight c' = c_inflight c ++ sent /\
+                 (forall d, qsum d sent = get (ES, d) (c_bank c') - get (ES, d) b1) /\
+                 Forall (fun s => In (fst s) (c_allowed c) /\ 0 < snd s /\ memz (fst s) fail = false) sent)).
+Proof.
+  intros h open fail c Hb Hf b1 c'. pose proof (dist_nonneg _ (c_denoms c) _ Hf Hb) as Hb1. fold b1 in Hb1.
+  unfold c', end_block_rd. fold b1.
+  assert (Triv : forall d, get (FC, d) b1 = get (FC, d) b1 /\ get (CR, d) b1 = get (CR, d) b1 /\
+                          get (TS, d) b1 + get (ES, d) b1 = get (TS, d) b1 + get (ES, d) b1 /\ get (ES, d) b1 <= get (ES, d) b1)
+    by (intros; repeat split; lia).
+  destruct (should_send h (c_ltbh c) (c_bpdt c)) eqn:Es; cbn [negb].
+  - destruct open.
+    + destruct (send_loop fail (c_allowed c) b1 (c_inflight c)) as [[b2 q2]|] eqn:El.
+      * destruct (send_loop_spec _ _ _ _ _ _ El Hb1) as (N & A & B & C & S).
+        cbn [c_bank c_ltbh c_frac c_bpdt c_allowed c_denoms c_inflight c_memo c_chan c_to_pool c_dmap g_fees g_deliv].
+        split; [unfold same_config; cbn [c_bank c_ltbh c_frac c_bpdt c_allowed c_denoms c_inflight c_memo c_chan c_to_pool c_dmap g_fees g_deliv]; repeat split; reflexivity|].
+        repeat (split; [reflexivity|]). split; [exact N|]. split; [exact A|]. split; [reflexivity|].
+        right. repeat (split; [reflexivity|]). split; [exact B|]. split; [exact C|]. exact S.
+      * cbn [c_bank c_ltbh c_frac c_bpdt c_allowed c_denoms c_inflight c_memo c_chan c_to_pool c_dmap g_fees g_deliv]. split; [unfold same_config; cbn [c_bank c_ltbh c_frac c_bpdt c_allowed c_denoms c_inflight c_memo c_chan c_to_pool c_dmap g_fees g_deliv]; repeat split; reflexivity|].
+        repeat (split; [reflexivity|]). split; [exact Hb1|]. split; [exact Triv|]. split; [reflexivity|]. left; split; reflexivity.
+    + cbn [c_bank c_ltbh c_frac c_bpdt c_allowed c_denoms c_inflight c_memo c_chan c_to_pool c_dmap g_fees g_deliv]. split; [unfold same_config; cbn [c_bank c_ltbh c_frac c_bpdt c_allowed c_denoms c_inflight c_memo c_chan c_to_pool c_dmap g_fees g_deliv]; repeat split; reflexivity|].
+      repeat (split; [reflexivity|]). split; [exact Hb1|]. split; [exact Triv|]. split; [reflexivity|]. left; split; reflexivity.
+  - unfold c_with_bank; cbn [c_bank c_ltbh c_frac c_bpdt c_allowed c_denoms c_inflight c_memo c_chan c_to_pool c_dmap g_fees g_deliv]. split; [unfold same_config; cbn [c_bank c_ltbh c_frac c_bpdt c_allowed c_denoms c_inflight c_memo c_chan c_to_pool c_dmap g_fees g_deliv]; repeat split; reflexivity|].
+    repeat (split; [reflexivity|]). split; [exact Hb1|]. split; [exact Triv|]. split; [reflexivity|]. left; split; reflexivity.
+Qed.
+
+Lemma fund_fees_spec : forall fees c,
+  let c' := fund_fees fees c in
+  same_config c c' /\ c_ltbh c' = c_ltbh c /\ c_inflight c' = c_inflight c /\ g_deliv c' = g_deliv c /\
+  (forall a d, get (a, d) (c_bank c') = get (a, d) (c_bank c) + (if a =? FC then qsum d fees else 0)) /\
+  (forall d, get (0, d) (g_fees c') = get (0, d) (g_fees c) + qsum d fees).
+Proof.
+  intros fees; induction fees as [|[fd fa] r IH]; intros c; cbn [fund_fees fold_left].
+  - split; [unfold same_config; repeat split; reflexivity|]. repeat (split; [reflexivity|]).
+    split; [intros a d; cbn [qsum]; destruct (a =? FC); lia | intros d; cbn [qsum]; lia].
+  - match goal with |- context [fold_left ?g r ?c0] => specialize (IH c0); change (fold_left g r c0) with (fund_fees r c0) in * end.
+    cbv zeta in IH. destruct IH as (S & L & I & D & B & G).
+    unfold same_config in *; cbn [c_bank c_ltbh c_frac c_bpdt c_allowed c_denoms c_inflight c_memo c_chan c_to_pool c_dmap g_fees g_deliv fst snd] in *.
+    destruct S as (S1 & S2 & S3 & S4 & S5 & S6 & S7 & S8).
+    split; [repeat split; assumption|]. repeat (split; [assumption|]). split.
+    + intros a d. rewrite B, get_add; keq. cbn [qsum]. unfold FC. rewrite (Z.eqb_sym d fd).
+      destruct (a =? 0); cbn [andb]; [destruct (fd =? d)|]; lia.
+    + intros d. rewrite G, get_add; keq. cbn [qsum Z.eqb andb]. rewrite (Z.eqb_sym d fd). destruct (fd =? d); lia.
+Qed.
+
+Lemma dist_get_ES : forall frac denoms b d, get (ES, d) (distribute_internally frac denoms b) = get (ES, d) b.
+Proof.
+  intros frac denoms; unfold distribute_internally; induction denoms as [|x r IH]; intros b d; cbn [fold_left]; [reflexivity|].
+  rewrite IH, split_denom_get. unfold ES, FC, CR, TS; cbn [Z.eqb Pos.eqb]. destruct (d =? x) eqn:E; [apply Z.eqb_eq in E; subst|]; reflexivity.
+Qed.
+
+Definition qnonneg (q : list (Z * Z)) : Prop := Forall (fun s => 0 <= snd s) q.
+
+Lemma qsum_nonneg : forall d q, qnonneg q -> 0 <= qsum d q.
+Proof.
+  intros d q H; induction H as [|[d' a] r Ha Hr IH]; cbn [qsum]; [lia|]. cbn [snd] in Ha. destruct (d' =? d); lia.
+Qed.
+
+Definition cinv (c : cstate) : Prop :=
+  bank_nonneg (c_bank c) /\ qnonneg (c_inflight c) /\ 0 <= c_frac c <= P /\
+  (forall d, row4 (c_bank c) d = get (0, d) (g_fees c)) /\
+  (forall d, get (ES, d) (c_bank c) = qsum d (c_inflight c) + get (0, d) (g_deliv c)) /\
+  (forall d, 0 <= get (0, d) (g_deliv c)).
+
+Lemma cblock_cinv : forall h fees open fail c, qnonneg fees -> cinv c -> cinv (cblock h fees open fail c).
+Proof.
+  intros h fees open fail c Hfees (Hb & Hq & Hf & Hr & He & Hd). unfold cblock.
+  destruct (fund_fees_spec fees c) as (S & L & I & D & B & G). cbv zeta in *.
+  set (c1 := fund_fees fees c) in *.
+  destruct S as (S1 & S2 & S3 & S4 & _).
+  assert (Hb1 : bank_nonneg (c_bank c1)).
+  { intros a d; rewrite B. pose proof (Hb a d). pose proof (qsum_nonneg d fees Hfees). destruct (a =? FC); lia. }
+  assert (Hf1 : 0 <= c_frac c1 <= P) by (rewrite S1; exact Hf).
+  destruct (end_block_rd_spec h open fail c1 Hb1 Hf1) as (_ & GF & GD & N & A & _ & Alt). cbv zeta in *.
+  set (c' := end_block_rd h open fail c1) in *.
+  set (b1 := distribute_internally (c_frac c1) (c_denoms c1) (c_bank c1)) in *.
+  assert (R1 : forall d, row4 (c_bank c1) d = get (0, d) (g_fees c1)).
+  { intros d; unfold row4; rewrite !B, G. specialize (Hr d); unfold row4 in Hr. unfold FC, CR, TS, ES in *; cbn [Z.eqb Pos.eqb]. lia. }
+  assert (E1 : forall d, get (ES, d) (c_bank c1) = qsum d (c_inflight c1) + get (0, d) (g_deliv c1)).
+  { intros d; rewrite B, I, D. specialize (He d). unfold ES, FC in *; cbn [Z.eqb Pos.eqb]. lia. }
+  unfold cinv. split; [exact N|].
+  assert (HES : forall d, get (ES, d) b1 = get (ES, d) (c_bank c1)) by (intros d; apply dist_get_ES).
+  split.
+  { destruct Alt as [[_ Q]|(_ & _ & _ & _ & sent & Q & _ & F)]; rewrite Q, I.
+    - exact Hq.
+    - apply Forall_app; split; [exact Hq|]. eapply Forall_impl; [|exact F]. intros s (_ & s2 & _); lia. }
+  split.
+  { destruct (end_block_rd_spec h open fail c1 Hb1 Hf1) as ((T1 & _) & _). fold c' in T1. rewrite T1, S1. exact Hf. }
+  split.
+  { intros d. rewrite GF, <- R1. destruct (A d) as (A1 & A2 & A3 & _). unfold row4.
+    pose proof (dist_row4 (c_frac c1) (c_denoms c1) (c_bank c1) d) as Hd4. fold b1 in Hd4. unfold row4 in Hd4. lia. }
+  split.
+  { intros d. rewrite GD. destruct Alt as [[Q1 Q2]|(_ & _ & _ & _ & sent & Q & Sq & _)].
+    - rewrite Q1, Q2, HES. apply E1.
+    - rewrite Q, qsum_app, Sq, HES. specialize (E1 d). lia. }
+  intros d; rewrite GD, D; apply Hd.
+Qed.
+
+Lemma cset_params_cinv : forall frac bpdt allowed c, 0 <= frac <= P -> cinv c -> cinv (cset_params frac bpdt allowed c).
+Proof.
+  intros frac bpdt allowed c Hf (Hb & Hq & _ & Hr & He & Hd). unfold cinv, cset_params; cbn [c_bank c_inflight c_frac g_fees g_deliv]. tauto.
+Qed.
+
+Lemma crefund_cinv : forall c, cinv c -> cinv (crefund c).
+Proof.
+  intros c (Hb & Hq & Hf & Hr & He & Hd). unfold crefund. destruct (c_inflight c) as [|[d a] q] eqn:Eq; [unfold cinv; rewrite Eq; tauto|].
+  inversion Hq as [|? ? Ha Hq']; subst. cbn [snd] in Ha.
+  assert (G : forall x d', get (x, d') (move ES TS d a (c_bank c)) =
+               get (x, d') (c_bank c) + (if (x =? TS) && (d' =? d) then a else 0) - (if (x =? ES) && (d' =? d) then a else 0))
+    by (intros; rewrite get_move; keq; reflexivity).
+  unfold cinv; cbn [c_bank c_inflight c_frac g_fees g_deliv].
+  split.
+  { intros x d'. rewrite G. pose proof (Hb x d'). specialize (He d'). cbn [qsum] in He.
+    pose proof (qsum_nonneg d' q Hq'). pose proof (Hd d').
+    destruct ((x =? ES) && (d' =? d)) eqn:E.
+    - apply andb_true_iff in E; destruct E as [E1 E2]; apply Z.eqb_eq in E1, E2; subst x d'. rewrite Z.eqb_refl in He.
+      unfold ES, TS in *; cbn [Z.eqb Pos.eqb andb]. lia.
+    - destruct ((x =? TS) && (d' =? d)); lia. }
+  split; [exact Hq'|]. split; [exact Hf|]. split.
+  { intros d'. rewrite <- Hr. unfold row4. rewrite !G. unfold FC, CR, TS, ES; cbn [Z.eqb Pos.eqb andb]. destruct (d' =? d); lia. }
+  split; [|exact Hd].
+  intros d'. rewrite G. specialize (He d'). cbn [qsum] in He. unfold ES, TS in *; cbn [Z.eqb Pos.eqb andb].
+  rewrite (Z.eqb_sym d d') in He. destruct (d' =? d); lia.
+Qed.
+
+Lemma cdelivered_cinv : forall c, cinv c -> cinv (cdelivered c).
+Proof.
+  intros c (Hb & Hq & Hf & Hr & He & Hd). unfold cdelivered. destruct (c_inflight c) as [|[d a] q] eqn:Eq; [unfold cinv; rewrite Eq; tauto|].
+  inversion Hq as [|? ? Ha Hq']; subst. cbn [snd] in Ha.
+  unfold cinv; cbn [c_bank c_inflight c_frac g_fees g_deliv].
+  split; [exact Hb|]. split; [exact Hq'|]. split; [exact Hf|]. split; [exact Hr|]. split.
+  - intros d'. rewrite get_add; keq. specialize (He d'). cbn [qsum Z.eqb andb] in *. rewrite (Z.eqb_sym d d') in He. destruct (d' =? d); lia.
+  - intros d'. rewrite get_add; keq. specialize (Hd d'). cbn [Z.eqb andb]. destruct (d' =? d); lia.
+Qed.
+
+(* ================================================================== the other provider operations *)
+Definition mstep0 (m m' : money) : Prop :=
+  (pinv m -> pinv m') /\ (log_ok m -> log_ok m') /\ log m' = log m /\ outst m' = outst m /\ comm m' = comm m /\ cpool m' = cpool m.
+
+Ltac mfields := cbn [bank cpool outst comm alloc g_cred g_pv g_pc g_dust g_forf g_mint log].
+
+Lemma fund_mstep0 : forall d amt m, mstep0 m (fund d amt m).
+Proof.
+  intros d amt m; unfold mstep0, fund; mfields. split; [|split; [intros Hl; exact Hl | repeat split]].
+  intros (Ha & Hb & Hd & Hl). unfold pinv, acct_ok, bank_ok, distr_ok, link_ok in *; mfields.
+  split; [exact Ha|]. split; [|split; [|exact Hl]].
+  - intros d'. getadd. specialize (Hb d'). unfold POOL, DISTR, OTHER in *; cbn [Z.eqb Pos.eqb andb]. destruct (d' =? d); lia.
+  - intros d'. getadd. specialize (Hd d'). unfold POOL, DISTR in *; cbn [Z.eqb Pos.eqb andb]. lia.
+Qed.
+
+Lemma fund_ninv : forall d amt m, 0 <= amt -> ninv m -> ninv (fund d amt m).
+Proof.
+  intros d amt m Ha (Hn & Hp); unfold ninv, fund, nonneg_ok, pool_ok in *; mfields. split; [exact Hn|].
+  intros d'. getadd. specialize (Hp d'). destruct ((POOL =? POOL) && (d' =? d)); lia.
+Qed.
+
+Lemma credit_mstep0 : forall c d raw m, mstep0 m (credit c d raw m).
+Proof.
+  intros c d raw m; unfold mstep0, credit; mfields. split; [|split; [intros Hl; exact Hl | repeat split]].
+  intros (Ha & Hb & Hd & Hl). unfold pinv, acct_ok, bank_ok, distr_ok, link_ok in *; mfields.
+  split; [|split; [exact Hb|split; [exact Hd|exact Hl]]].
+  intros c' d'. getadd. specialize (Ha c' d'). destruct ((c' =? c) && (d' =? d)); lia.
+Qed.
+
+Lemma credit_ninv : forall c d raw m, 0 <= raw -> ninv m -> ninv (credit c d raw m).
+Proof.
+  intros c d raw m Hr (Hn & Hp); unfold ninv, credit, nonneg_ok, pool_ok in *; mfields. split; [|exact Hp].
+  intros c' d'. getadd. specialize (Hn c' d'). destruct ((c' =? c) && (d' =? d)); lia.
+Qed.
+
+(* the three outcomes of the middleware *)
+Definition m_recv1 (d amt : Z) (to_pool : bool) (m : money) : money :=
+  mkM (add ((if to_pool then POOL else OTHER), d) amt (bank m)) (cpool m) (outst m) (comm m) (alloc m)
+      (g_cred m) (g_pv m) (g_pc m) (g_dust m) (g_forf m) (add (0, d) amt (g_mint m)) (log m).
+Definition m_recv2 (c d amt : Z) (m : money) : money :=
+  let m1 := m_recv1 d amt true m in
+  mkM (bank m1) (cpool m1) (outst m1) (comm m1) (add (c, d) (dec_of_int amt) (alloc m1))
+      (add (c, d) (dec_of_int amt) (g_cred m1)) (g_pv m1) (g_pc m1) (g_dust m1) (g_forf m1) (g_mint m1) (log m1).
+
+(* the consumer the middleware credits *)
+Definition credited_consumer (ch memo : Z) (ack_ok to_pool : bool) (f : conf) : option Z :=
+  if ack_ok && to_pool then
+    match (if 0 <=? memo then Some memo else if memo =? (-2) then None else identify ch f) with
+    | Some c => if has_chain c f then Some c else None
+    | None => None
+    end
+  else None.
+
+Lemma receive_cases : forall ch memo d amt ack_ok to_pool f m,
+  receive ch memo d amt ack_ok to_pool f m =
+  if negb ack_ok then m
+  else match credited_consumer ch memo ack_ok to_pool f with
+       | Some c => m_recv2 c d amt m
+       | None => m_recv1 d amt to_pool m
+       end.
+Proof.
+  intros. unfold receive, credited_consumer. destruct ack_ok; cbn [negb andb]; [|reflexivity].
+  destruct to_pool; cbn [negb]; [|reflexivity].
+  destruct (if 0 <=? memo then Some memo else if memo =? -2 then None else identify ch f) as [c|]; [|reflexivity].
+  destruct (has_chain c f); reflexivity.
+Qed.
+
+Lemma recv1_mstep0 : forall d amt to_pool m, mstep0 m (m_recv1 d amt to_pool m).
+Proof.
+  intros d amt to_pool m; unfold mstep0, m_recv1; mfields. split; [|split; [intros Hl; exact Hl | repeat split]].
+  intros (Ha & Hb & Hd & Hl). unfold pinv, acct_ok, bank_ok, distr_ok, link_ok in *; mfields.
+  split; [exact Ha|]. split; [|split; [|exact Hl]].
+  - intros d'. getadd. specialize (Hb d'). unfold POOL, DISTR, OTHER in *. destruct to_pool; cbn [Z.eqb Pos.eqb andb]; destruct (d' =? d); lia.
+  - intros d'. getadd. specialize (Hd d'). unfold POOL, DISTR, OTHER in *. destruct to_pool; cbn [Z.eqb Pos.eqb andb]; lia.
+Qed.
+
+Lemma recv2_mstep0 : forall c d amt m, mstep0 m (m_recv2 c d amt m).
+Proof.
+  intros c d amt m. destruct (recv1_mstep0 d amt true m) as (A1 & B1 & C1 & D1 & E1 & F1).
+  unfold mstep0, m_recv2, m_recv1; cbv zeta; mfields. split; [|split; [intros Hl; exact Hl | repeat split]].
+  intros Hp. destruct (A1 Hp) as (Ha & Hb & Hd & Hl). unfold m_recv1 in *.
+  unfold pinv, acct_ok, bank_ok, distr_ok, link_ok in *; mfields; cbn [bank cpool outst comm alloc g_cred g_pv g_pc g_dust g_forf g_mint log] in *.
+  split; [|split; [exact Hb|split; [exact Hd|exact Hl]]].
+  intros c' d'. getadd. specialize (Ha c' d'). destruct ((c' =? c) && (d' =? d)); lia.
+Qed.
+
+Lemma receive_mstep0 : forall ch memo d amt ack_ok to_pool f m, mstep0 m (receive ch memo d amt ack_ok to_pool f m).
+Proof.
+  intros. rewrite receive_cases. destruct (negb ack_ok).
+  - unfold mstep0; split; [tauto|]. split; [tauto|]. repeat split.
+  - destruct (credited_consumer ch memo ack_ok to_pool f); [apply recv2_mstep0 | apply recv1_mstep0].
+Qed.
+
+Lemma receive_ninv : forall ch memo d amt ack_ok to_pool f m, 0 <= amt -> ninv m -> ninv (receive ch memo d amt ack_ok to_pool f m).
+Proof.
+  intros ch memo d amt ack_ok to_pool f m Ha (Hn & Hp). rewrite receive_cases. destruct (negb ack_ok); [split; assumption|].
+  assert (H1 : forall tp, ninv (m_recv1 d amt tp m)).
+  { intros tp; unfold ninv, m_recv1, nonneg_ok, pool_ok in *; mfields. split; [exact Hn|].
+    intros d'. getadd. specialize (Hp d'). unfold POOL, OTHER in *. destruct tp; cbn [Z.eqb Pos.eqb andb]; [destruct (d' =? d)|]; lia. }
+  destruct (credited_consumer ch memo ack_ok to_pool f) as [c|]; [|apply H1].
+  destruct (H1 true) as (Hn1 & Hp1). unfold ninv, m_recv2, nonneg_ok, pool_ok in *; cbv zeta; mfields. split; [|exact Hp1].
+  intros c' d'. unfold m_recv1 in *; mfields. getadd. specialize (Hn1 c' d'). mfields. cbn [alloc g_pv g_pc g_dust g_forf] in Hn1. unfold dec_of_int.
+  pose proof P_pos. destruct ((c' =? c) && (d' =? d)); [nia | lia].
+Qed.
+
+(* ================================================================== the whole system *)
+Definition sinv (s : state) : Prop := pinv (pm (prov s)) /\ log_ok (pm (prov s)).
+Definition swf (s : state) : Prop := ninv (pm (prov s)) /\ conf_wf (pf (prov s)) /\ Forall cinv (chains s).
+
+Definition wf_op (o : op) : Prop :=
+  match o with
+  | PFund _ amt => 0 <= amt
+  | PCredit _ _ raw => 0 <= raw
+  | PReceive _ _ _ amt _ _ => 0 <= amt
+  | PBegin env => env_wf env
+  | PSetValset _ vs => Forall (fun x => 0 <= cv_pow x) vs
+  | PEpoch _ _ vps => Forall (fun vp => 0 <= snd vp) vps
+  | CBlock _ _ fees _ _ => qnonneg fees
+  | CSetParams _ frac _ _ => 0 <= frac <= P
+  | _ => True
+  end.
+
+Definition money_op (o : op) : bool :=
+  match o with PFund _ _ | PCredit _ _ _ | PReceive _ _ _ _ _ _ | PBegin _ => true | _ => false end.
+
+Lemma pstep_conf_op : forall p o, money_op o = false -> pm (pstep p o) = pm p.
+Proof.
+  intros [m f] o H; destruct o; cbn in H; try discriminate; cbn [pstep pm pf]; try reflexivity.
+  - destruct (change_denoms_ok auth_ok adds rems); reflexivity.
+  - destruct (set_commission_ok c rate known f); reflexivity.
+Qed.
+
+Lemma pstep_money_op : forall p o, money_op o = true -> pf (pstep p o) = pf p.
+Proof. intros [m f] o H; destruct o; cbn in H; try discriminate; reflexivity. Qed.
+
+(* what a step does to the provider's money: the log only grows, by justified payouts *)
+Definition new_ok (s : state) (o : op) (e : event) : Prop :=
+  exists env, o = PBegin env /\ justified (pf (prov s)) env e /\ listed (pf (prov s)) e.
+
+Lemma step_sinv_log : forall s o,
+  (sinv s -> sinv (step s o)) /\
+  exists new, log (pm (prov (step s o))) = log (pm (prov s)) ++ new /\ Forall (new_ok s o) new.
+Proof.
+  intros s o.
+  assert (Nil : forall m', (pinv (pm (prov s)) -> pinv m') -> (log_ok (pm (prov s)) -> log_ok m') -> log m' = log (pm (prov s)) ->
+     forall s', pm (prov s') = m' ->
+     (sinv s -> sinv s') /\ exists new, log (pm (prov s')) = log (pm (prov s)) ++ new /\ Forall (new_ok s o) new).
+  { intros m' A B C s' E. split; [intros (I1 & I2); unfold sinv; rewrite E; split; auto|].
+    exists []; rewrite E, C, app_nil_r; split; [reflexivity | constructor]. }
+  assert (Same : forall s', pm (prov s') = pm (prov s) ->
+     (sinv s -> sinv s') /\ exists new, log (pm (prov s')) = log (pm (prov s)) ++ new /\ Forall (new_ok s o) new).
+  { intros s' E. apply (Nil (pm (prov s))); auto. }
+  destruct s as [[m f] ch]. cbn [prov pm pf] in *.
+  destruct o; cbn [step pstep prov pm pf chains];
+    try (apply Same; cbn [prov pm pf]; reflexivity).
+  - destruct (fund_mstep0 d amt m) as (A & B & C & _). eapply Nil; eauto.
+  - destruct (credit_mstep0 c d raw m) as (A & B & C & _). eapply Nil; eauto.
+  - destruct (receive_mstep0 ch0 memo d amt ack_ok to_pool f m) as (A & B & C & _). eapply Nil; eauto.
+  - destruct (begin_block_mstep env f m) as (A & _ & C & new & L & F).
+    split; [intros (I1 & I2); split; cbn [prov pm]; auto|]. cbn [prov pm].
+    exists new; split; [exact L|]. eapply Forall_impl; [|exact F]. intros e (J & Li). exists env; cbn [prov pf]; auto.
+  - apply Same; cbn [prov pm pf]. destruct (change_denoms_ok auth_ok adds rems); reflexivity.
+  - apply Same; cbn [prov pm pf]. destruct (set_commission_ok c rate known f); reflexivity.
+  - destruct (nth_error ch (Z.to_nat k)) as [c|]; [|apply Same; reflexivity].
+    destruct (c_inflight c) as [|[d a] q]; [apply Same; reflexivity|].
+    destruct ack_ok; [|apply Same; reflexivity]. cbn [prov pm pf].
+    destruct (receive_mstep0 (c_chan c) (c_memo c) (pdenom c d) a true (c_to_pool c) f m) as (A & B & C & _). eapply Nil; eauto.
+Qed.
+
+Lemma step_sinv : forall s o, sinv s -> sinv (step s o).
+Proof. intros s o; apply step_sinv_log. Qed.
+
+Lemma run_sinv : forall ops s, sinv s -> sinv (run_ops s ops).
+Proof. induction ops as [|o r IH]; intros s H; cbn [run_ops fold_left]; [exact H | apply IH, step_sinv, H]. Qed.
+
+(* ---- well-formedness *)
+Lemma lookup_put : forall {A} c' c (x : A) l, lookup c' (put c x l) = if c' =? c then Some x else lookup c' l.
+Proof.
+  intros A c' c x l; induction l as [|[k a] r IH]; cbn [put lookup].
+  - destruct (c' =? c); reflexivity.
+  - destruct (c =? k) eqn:E; cbn [lookup].
+    + apply Z.eqb_eq in E; subst k. destruct (c' =? c); reflexivity.
+    + destruct (c' =? k) eqn:E2; [|exact IH]. apply Z.eqb_eq in E2; subst k.
+      destruct (c' =? c) eqn:E3; [apply Z.eqb_eq in E3; subst; rewrite Z.eqb_refl in E; discriminate | reflexivity].
+Qed.
+
+Lemma lookup_list_put : forall {A} c' c (x : list A) l, lookup_list c' (put c x l) = if c' =? c then x else lookup_list c' l.
+Proof. intros; unfold lookup_list; rewrite lookup_put; destruct (c' =? c); reflexivity. Qed.
+
+Lemma Forall_upd_nth : forall {A} (Q : A -> Prop) g n l, (forall x, Q x -> Q (g x)) -> Forall Q l -> Forall Q (upd_nth n g l).
+Proof.
+  intros A Q g n l Hg H; revert n; induction H as [|x r Hx Hr IH]; intros n; cbn [upd_nth]; [destruct n; constructor|].
+  destruct n; constructor; auto.
+Qed.
+
+Lemma Forall_nth_error : forall {A} (Q : A -> Prop) l n x, Forall Q l -> nth_error l n = Some x -> Q x.
+Proof. intros A Q l n x H E; rewrite Forall_forall in H; apply H; eapply nth_error_In; exact E. Qed.
+
+Lemma step_swf : forall s o, wf_op o -> swf s -> swf (step s o).
+Proof.
+  intros [[m f] ch] o Hw (Hn & Hc & Hch); cbn [prov pm pf chains] in *.
+  destruct o; cbn [wf_op] in Hw; cbn [step pstep]; unfold swf; cbn [prov pm pf chains];
+    try (split; [exact Hn | split; [exact Hc | exact Hch]]).
+  - split; [apply fund_ninv; assumption | split; assumption].
+  - split; [apply credit_ninv; assumption | split; assumption].
+  - split; [apply receive_ninv; assumption | split; assumption].
+  - destruct (begin_block_mstep env f m) as (_ & B & _). split; [apply B; assumption | split; assumption].
+  - destruct (change_denoms_ok auth_ok adds rems); cbn [pm pf]; (split; [exact Hn | split; [exact Hc | exact Hch]]).
+  - destruct (set_commission_ok c rate known f); cbn [pm pf]; (split; [exact Hn | split; [exact Hc | exact Hch]]).
+  - split; [exact Hn | split; [|exact Hch]]. intros c'; unfold f_with_valsets; cbn [valsets]. rewrite lookup_list_put.
+    destruct (c' =? c); [exact Hw | apply Hc].
+  - split; [exact Hn | split; [|exact Hch]]. intros c'; unfold f_with_valsets; cbn [valsets]. rewrite lookup_list_put.
+    destruct (c' =? c); [|apply Hc]. rewrite Forall_forall in *. intros x Hx. apply in_map_iff in Hx. destruct Hx as (vp & <- & Hvp).
+    unfold epoch_val. destruct (find (fun e => cv_id e =? fst vp) (lookup_list c (valsets f))); cbn [cv_pow]; apply Hw; exact Hvp.
+  - split; [exact Hn | split; [exact Hc|]]. apply Forall_upd_nth; [|exact Hch]. intros x; apply cblock_cinv; exact Hw.
+  - split; [exact Hn | split; [exact Hc|]]. apply Forall_upd_nth; [|exact Hch]. intros x; apply cset_params_cinv; exact Hw.
+  - destruct (nth_error ch (Z.to_nat k)) as [c|] eqn:En; [|split; [exact Hn | split; [exact Hc | exact Hch]]].
+    pose proof (Forall_nth_error _ _ _ _ Hch En) as Hci.
+    destruct (c_inflight c) as [|[d a] q] eqn:Eq; [split; [exact Hn | split; [exact Hc | exact Hch]]|].
+    destruct ack_ok; cbn [prov pm pf chains].
+    + split; [|split; [exact Hc | apply Forall_upd_nth; [apply cdelivered_cinv | exact Hch]]].
+      apply receive_ninv; [|exact Hn]. destruct Hci as (_ & Hq & _). rewrite Eq in Hq. inversion Hq; subst; assumption.
+    + split; [exact Hn | split; [exact Hc | apply Forall_upd_nth; [apply crefund_cinv | exact Hch]]].
+  - split; [exact Hn | split; [exact Hc | apply Forall_upd_nth; [apply crefund_cinv | exact Hch]]].
+Qed.
+
+Lemma run_swf : forall ops s, Forall wf_op ops -> swf s -> swf (run_ops s ops).
+Proof.
+  induction ops as [|o r IH]; intros s Hw H; cbn [run_ops fold_left]; [exact H|].
+  inversion Hw; subst. apply IH; [assumption | apply step_swf; assumption].
+Qed.
+
+(* ---- reachability, for the trace-level statement about payouts *)
+Inductive reach (s0 : state) : state -> Prop :=
+| reach_init : reach s0 s0
+| reach_step : forall s o, reach s0 s -> reach s0 (step s o).
+
+Lemma reach_run : forall ops s0 s, reach s0 s -> reach s0 (run_ops s ops).
+Proof.
+  induction ops as [|o r IH]; intros s0 s H; cbn [run_ops fold_left]; [exact H | apply IH, reach_step, H].
+Qed.
+
+Definition paid_from (s0 : state) (e : event) : Prop :=
+  exists s env, reach s0 s /\ justified (pf (prov s)) env e /\ listed (pf (prov s)) e.
+
+Lemma reach_log : forall s0 s, log (pm (prov s0)) = [] -> reach s0 s -> Forall (paid_from s0) (log (pm (prov s))).
+Proof.
+  intros s0 s H0 R; induction R as [|s o R IH]; [rewrite H0; constructor|].
+  destruct (step_sinv_log s o) as (_ & new & L & F). rewrite L. apply Forall_app; split; [exact IH|].
+  eapply Forall_impl; [|exact F]. intros e (env & _ & J & Li). exists s, env; auto.
+Qed.
+
+(* ================================================================== initial states *)
+Definition initial (s : state) : Prop :=
+  pm (prov s) = empty_money /\ valsets (pf (prov s)) = [] /\
+  Forall (fun c => c_bank c = [] /\ c_inflight c = [] /\ g_fees c = [] /\ g_deliv c = [] /\ 0 <= c_frac c <= P) (chains s).
+
+Lemma initial_sinv : forall s, initial s -> sinv s.
+Proof.
+  intros s (E & _ & _). unfold sinv, pinv, acct_ok, bank_ok, distr_ok, link_ok, log_ok. rewrite E. cbn.
+  repeat split; reflexivity.
+Qed.
+
+Lemma initial_swf : forall s, initial s -> swf s.
+Proof.
+  intros s (E & V & C). unfold swf, ninv, nonneg_ok, pool_ok, conf_wf. rewrite E, V. cbn.
+  split; [split; intros; repeat split; lia|]. split; [intros; constructor|].
+  eapply Forall_impl; [|exact C]. intros c (B & Q & F & D & Fr). unfold cinv, bank_nonneg, qnonneg, row4. rewrite B, Q, F, D. cbn.
+  repeat split; try lia; constructor.
+Qed.
+
+(* ================================================================== C16 statements *)
+(* 1. split *)
+Lemma split_exact : forall h fees open fail c d,
+  bank_nonneg (c_bank c) -> qnonneg fees -> 0 <= c_frac c <= P -> NoDup (c_denoms c) -> In d (c_denoms c) ->
+  let fp := get (FC, d) (c_bank c) + qsum d fees in
+  let share := (fp * c_frac c) / P in
+  let c' := cblock h fees open fail c in
+  get (FC, d) (c_bank c') = 0 /\
+  get (CR, d) (c_bank c') = get (CR, d) (c_bank c) + share /\
+  get (TS, d) (c_bank c') + get (ES, d) (c_bank c') = get (TS, d) (c_bank c) + get (ES, d) (c_bank c) + (fp - share) /\
+  0 <= share <= fp /\
+  (forall d', row4 (c_bank c') d' = row4 (c_bank c) d' + qsum d' fees).
+Proof.
+  intros h fees open fail c d Hb Hfees Hf Hnd Hin fp share c'. unfold c', cblock.
+  destruct (fund_fees_spec fees c) as (S & L & I & D & B & G). cbv zeta in *.
+  set (c1 := fund_fees fees c) in *. destruct S as (S1 & S2 & S3 & S4 & _).
+  assert (Hb1 : bank_nonneg (c_bank c1)).
+  { intros a x; rewrite B. pose proof (Hb a x). pose proof (qsum_nonneg x fees Hfees). destruct (a =? FC); lia. }
+  assert (Hf1 : 0 <= c_frac c1 <= P) by (rewrite S1; exact Hf).
+  destruct (end_block_rd_spec h open fail c1 Hb1 Hf1) as (_ & _ & _ & _ & A & _). cbv zeta in A.
+  assert (Hfp : get (FC, d) (c_bank c1) = fp) by (rewrite B; unfold fp, FC; cbn [Z.eqb]; reflexivity).
+  assert (Hfp0 : 0 <= fp) by (rewrite <- Hfp; apply Hb1).
+  destruct (A d) as (A1 & A2 & A3 & _).
+  rewrite <- S4 in Hnd, Hin.
+  rewrite (dist_get_in _ _ _ FC d Hnd Hin) in A1. rewrite (dist_get_in _ _ _ CR d Hnd Hin) in A2.
+  rewrite (dist_get_in _ _ _ TS d Hnd Hin), (dist_get_in _ _ _ ES d Hnd Hin) in A3.
+  unfold FC, CR, TS, ES in A1, A2, A3; cbn [Z.eqb Pos.eqb] in A1, A2, A3. fold FC CR TS ES in A1, A2, A3.
+  rewrite Hfp, S1, cons_share_floor in A2, A3 by lia. fold share in A2, A3.
+  rewrite !B in A2, A3. pose proof (B ES d) as BE. unfold FC, CR, TS, ES in *; cbn [Z.eqb Pos.eqb] in *.
+  pose proof (cons_share_bounds fp (c_frac c) Hfp0 Hf) as Hsb. rewrite cons_share_floor in Hsb by lia. fold share in Hsb.
+  split; [exact A1|]. split; [lia|]. split; [lia|]. split; [exact Hsb|].
+  intros d'. destruct (A d') as (B1 & B2 & B3 & _).
+  pose proof (dist_row4 (c_frac c1) (c_denoms c1) (c_bank c1) d') as R. unfold row4 in *. rewrite !B in R.
+  unfold FC, CR, TS, ES in *; cbn [Z.eqb Pos.eqb] in *. lia.
+Qed.
+
+(* 2. transmission discipline *)
+Lemma send_discipline : forall h fees open fail c,
+  bank_nonneg (c_bank c) -> qnonneg fees -> 0 <= c_frac c <= P ->
+  let c' := cblock h fees open fail c in
+  let due := should_send h (c_ltbh c) (c_bpdt c) in
+  (forall d, get (ES, d) (c_bank c') <> get (ES, d) (c_bank c) ->
+             due = true /\ open = true /\ In d (c_allowed c) /\ get (TS, d) (c_bank c') = 0) /\
+  ((forall d, get (ES, d) (c_bank c') = get (ES, d) (c_bank c)) \/
+   (due = true /\ open = true /\ forall d, In d (c_allowed c) -> get (TS, d) (c_bank c') = 0)) /\
+  c_ltbh c' = (if due then h else c_ltbh c) /\
+  (exists sent, c_inflight c' = c_inflight c ++ sent /\
+     (forall d, qsum d sent = get (ES, d) (c_bank c') - get (ES, d) (c_bank c)) /\
+     Forall (fun s => In (fst s) (c_allowed c) /\ 0 < snd s /\ memz (fst s) fail = false) sent).
+Proof.
+  intros h fees open fail c Hb Hfees Hf c' due. unfold c', cblock.
+  destruct (fund_fees_spec fees c) as (S & L & I & D & B & G). cbv zeta in *.
+  set (c1 := fund_fees fees c) in *. destruct S as (S1 & S2 & S3 & S4 & _).
+  assert (Hb1 : bank_nonneg (c_bank c1)).
+  { intros a x; rewrite B. pose proof (Hb a x). pose proof (qsum_nonneg x fees Hfees). destruct (a =? FC); lia. }
+  assert (Hf1 : 0 <= c_frac c1 <= P) by (rewrite S1; exact Hf).
+  destruct (end_block_rd_spec h open fail c1 Hb1 Hf1) as (_ & _ & _ & _ & A & Lt & Alt). cbv zeta in *.
+  rewrite L, S2, S3, I in *. fold due in Lt, Alt.
+  assert (HES : forall d, get (ES, d) (distribute_internally (c_frac c1) (c_denoms c1) (c_bank c1)) = get (ES, d) (c_bank c)).
+  { intros d; rewrite dist_get_ES, B. unfold ES, FC; cbn [Z.eqb Pos.eqb]. lia. }
+  destruct Alt as [[Q1 Q2]|(Hd & Ho & Bx & Cx & sent & Q & Sq & F)].
+  - assert (Same : forall d, get (ES, d) (c_bank (end_block_rd h open fail c1)) = get (ES, d) (c_bank c)) by (intros d; rewrite Q1; apply HES).
+    split; [intros d Hne; rewrite Same in Hne; congruence|]. split; [left; exact Same|]. split; [exact Lt|].
+    exists []; rewrite app_nil_r. split; [exact Q2|]. split; [intros d; rewrite Same; cbn; lia | constructor].
+  - split.
+    { intros d Hne. destruct (in_dec Z.eq_dec d (c_allowed c)) as [Hi|Hi].
+      - destruct (Bx d Hi) as [B1 _]. auto.
+      - destruct (Cx d Hi) as [_ C2]. rewrite C2, HES in Hne. congruence. }
+    split; [right; split; [exact Hd | split; [exact Ho | intros d Hi; apply Bx; exact Hi]]|]. split; [exact Lt|].
+    exists sent. split; [exact Q|]. split; [intros d; rewrite Sq, HES; reflexivity | exact F].
+Qed.
+
+(* 3. crediting *)
+Lemma credit_sender : forall ch memo d amt ack_ok to_pool f m,
+  let m' := receive ch memo d amt ack_ok to_pool f m in
+  (forall c' d', get (c', d') (alloc m') =
+     get (c', d') (alloc m) +
+     match credited_consumer ch memo ack_ok to_pool f with
+     | Some c => if (c' =? c) && (d' =? d) then dec_of_int amt else 0
+     | None => 0
+     end) /\
+  (forall c' d', get (c', d') (g_cred m') - get (c', d') (g_cred m) = get (c', d') (alloc m') - get (c', d') (alloc m)) /\
+  outst m' = outst m /\ comm m' = comm m /\ cpool m' = cpool m /\
+  (ack_ok = false -> m' = m) /\
+  (forall a d', get (a, d') (bank m') =
+     get (a, d') (bank m) + if ack_ok && (a =? (if to_pool then POOL else OTHER)) && (d' =? d) then amt else 0).
+Proof.
+  intros ch memo d amt ack_ok to_pool f m m'. unfold m'. rewrite receive_cases.
+  unfold credited_consumer. destruct ack_ok; cbn [negb andb].
+  - destruct to_pool; cbn [andb].
+    + destruct (match (if 0 <=? memo then Some memo else if memo =? -2 then None else identify ch f) with
+                | Some c => if has_chain c f then Some c else None | None => None end) as [c|].
+      * unfold m_recv2, m_recv1; cbv zeta; cbn [bank cpool outst comm alloc g_cred g_pv g_pc g_dust g_forf g_mint log].
+        split; [intros c' d'; getadd; destruct ((c' =? c) && (d' =? d)); lia|].
+        split; [intros c' d'; getadd; destruct ((c' =? c) && (d' =? d)); lia|].
+        repeat (split; [reflexivity|]). split; [discriminate|]. intros a d'; getadd; match goal with |- context [if ?b then _ else _] => destruct b end; lia.
+      * unfold m_recv1; cbn [bank cpool outst comm alloc g_cred g_pv g_pc g_dust g_forf g_mint log].
+        split; [intros; lia|]. split; [intros; lia|]. repeat (split; [reflexivity|]). split; [discriminate|]. intros a d'; getadd; match goal with |- context [if ?b then _ else _] => destruct b end; lia.
+    + unfold m_recv1; cbn [bank cpool outst comm alloc g_cred g_pv g_pc g_dust g_forf g_mint log].
+      split; [intros; lia|]. split; [intros; lia|]. repeat (split; [reflexivity|]). split; [discriminate|]. intros a d'; getadd; match goal with |- context [if ?b then _ else _] => destruct b end; lia.
+  - split; [intros; destruct to_pool; cbn [andb]; lia|]. split; [intros; lia|]. repeat (split; [reflexivity|]). intros; lia.
+Qed.
+
+(* a transfer produced by a chain whose ConsumerId param is its own id credits that consumer *)
+Lemma credited_own_memo : forall ch memo f, 0 <= memo -> has_chain memo f = true ->
+  credited_consumer ch memo true true f = Some memo.
+Proof.
+  intros ch memo f H Hc; unfold credited_consumer; cbn [andb].
+  assert (E : (0 <=? memo) = true) by (apply Z.leb_le; exact H). rewrite E, Hc. reflexivity.
+Qed.
+
+Lemma relay_step : forall s k c d a q, nth_error (chains s) (Z.to_nat k) = Some c -> c_inflight c = (d, a) :: q ->
+  step s (Relay k true) =
+  mkS (mkP (receive (c_chan c) (c_memo c) (pdenom c d) a true (c_to_pool c) (pf (prov s)) (pm (prov s))) (pf (prov s)))
+      (upd_nth (Z.to_nat k) cdelivered (chains s)).
+Proof. intros s k c d a q E Q; cbn [step]. rewrite E, Q. reflexivity. Qed.
+
+(* 4. accounting of credits *)
+Lemma no_overpay : forall s0 ops, initial s0 -> Forall wf_op ops -> forall c d,
+  let m := pm (prov (run_ops s0 ops)) in
+  get (c, d) (g_cred m) =
+    get (c, d) (alloc m) + get (c, d) (g_pv m) + get (c, d) (g_pc m) + get (c, d) (g_dust m) + get (c, d) (g_forf m) /\
+  0 <= get (c, d) (alloc m) /\ 0 <= get (c, d) (g_pv m) /\ 0 <= get (c, d) (g_pc m) /\
+  0 <= get (c, d) (g_dust m) /\ 0 <= get (c, d) (g_forf m) /\
+  get (c, d) (g_pv m) + get (c, d) (g_pc m) + get (c, d) (alloc m) <= get (c, d) (g_cred m).
+Proof.
+  intros s0 ops Hi Hw c d m.
+  destruct (run_sinv ops s0 (initial_sinv s0 Hi)) as ((Ha & _) & _).
+  destruct (run_swf ops s0 Hw (initial_swf s0 Hi)) as ((Hn & _) & _).
+  fold m in Ha, Hn. specialize (Ha c d). destruct (Hn c d) as (N1 & N2 & N3 & N4 & N5).
+  repeat split; try assumption. lia.
+Qed.
+
+(* the ghost totals are the real records of x/distribution *)
+Lemma ghost_link : forall s0 ops, initial s0 -> forall d,
+  let m := pm (prov (run_ops s0 ops)) in
+  total d (outst m) = total d (g_pv m) /\ get (0, d) (cpool m) = total d (g_pc m).
+Proof.
+  intros s0 ops Hi d m. destruct (run_sinv ops s0 (initial_sinv s0 Hi)) as ((_ & _ & _ & Hl) & _). apply Hl.
+Qed.
+
+(* 5. payouts *)
+Lemma only_eligible : forall s0 ops, initial s0 ->
+  let m := pm (prov (run_ops s0 ops)) in
+  Forall (paid_from s0) (log m) /\
+  forall v d, get (v, d) (outst m) = log_amt v d (log m) /\ get (v, d) (comm m) = log_comm v d (log m).
+Proof.
+  intros s0 ops Hi m. split.
+  - apply reach_log; [destruct Hi as (E & _); rewrite E; reflexivity | apply reach_run, reach_init].
+  - destruct (run_sinv ops s0 (initial_sinv s0 Hi)) as (_ & Hl). exact Hl.
+Qed.
+
+(* 6. bank *)
+Lemma bank_conservation : forall s0 ops, initial s0 -> Forall wf_op ops ->
+  let s := run_ops s0 ops in
+  (forall d, get (POOL, d) (bank (pm (prov s))) + get (DISTR, d) (bank (pm (prov s))) + get (OTHER, d) (bank (pm (prov s)))
+             = get (0, d) (g_mint (pm (prov s)))) /\
+  (forall d, 0 <= get (POOL, d) (bank (pm (prov s)))) /\
+  Forall (fun c => (forall d, row4 (c_bank c) d = get (0, d) (g_fees c)) /\
+                   (forall d, get (ES, d) (c_bank c) = qsum d (c_inflight c) + get (0, d) (g_deliv c)) /\
+                   bank_nonneg (c_bank c)) (chains s).
+Proof.
+  intros s0 ops Hi Hw s.
+  destruct (run_sinv ops s0 (initial_sinv s0 Hi)) as ((_ & Hb & _) & _).
+  destruct (run_swf ops s0 Hw (initial_swf s0 Hi)) as ((_ & Hp) & _ & Hc).
+  split; [exact Hb|]. split; [exact Hp|]. eapply Forall_impl; [|exact Hc]. intros c (B & _ & _ & R & E & _). auto.
+Qed.
+
+(* 7. remainders *)
+Lemma remainder_bound : forall env f c d m m',
+  env_wf env -> conf_wf f -> ninv m -> alloc_body env f c d m = Some m' ->
+  exists T evs,
+    log m' = log m ++ evs /\
+    get (c, d) (g_pv m') - get (c, d) (g_pv m) = sum_amt evs /\
+    get (c, d) (g_dust m') - get (c, d) (g_dust m) = dec_of_int T - sum_amt evs /\
+    0 <= dec_of_int T - sum_amt evs <= T * (Z.of_nat (length evs) - 1) /\
+    0 <= T /\ dec_of_int T <= get (c, d) (alloc m).
+Proof.
+  intros env f c d m m' Hew Hcw Hn H. apply alloc_body_cases in H. cbv zeta in H.
+  destruct H as (HA & Hch & [(Ht & [(Hle & Hm) | Hm]) | (Ht & Hft & evs & Hev & H1 & H2 & Hm)]); subst m'.
+  - exists 0, []. unfold m_zero_funded; cbv zeta; cbn [log g_pv g_dust sum_amt length]. rewrite app_nil_r.
+    destruct Hn as [Hn _]. pose proof (Hn c d). unfold dec_of_int. repeat split; lia.
+  - exists 0, []. unfold m_zero_forfeit; cbv zeta; cbn [log g_pv g_dust sum_amt length]. rewrite app_nil_r.
+    destruct Hn as [Hn _]. pose proof (Hn c d). unfold dec_of_int. repeat split; lia.
+  - set (A := get (c, d) (alloc m)) in *.
+    set (vr := dmul_trunc A (dsub (dec_of_int 1) (b_tax env))) in *.
+    assert (HA0 : 0 <= A) by (destruct Hn as [Hn _]; apply Hn).
+    assert (Hvr : 0 <= vr <= A) by (apply dmul_trunc_bounds; [lia | unfold env_wf in Hew; unfold dsub, dec_of_int; lia]).
+    destruct (dtrunc_bounds vr ltac:(lia)) as [Hv1 Hv2].
+    destruct (paid_events_facts env f c d _ _ _ evs Hev Hv1 Ht (Hcw c)) as (_ & HS & HD).
+    exists (dtrunc_int vr), evs. unfold m_paid; cbv zeta; cbn [log g_pv g_dust]. fold A vr.
+    rewrite !get_add_same. repeat split; try lia.
+Qed.
+
+Lemma alloc_body_mint : forall env f c d m m', alloc_body env f c d m = Some m' -> g_mint m' = g_mint m /\ g_cred m' = g_cred m.
+Proof.
+  intros env f c d m m' H. apply alloc_body_cases in H. cbv zeta in H.
+  destruct H as (_ & _ & [(_ & [(_ & Hm) | Hm]) | (_ & _ & evs & _ & _ & _ & Hm)]); subst m'; split; reflexivity.
+Qed.
+
+Lemma begin_block_mint : forall env f m, g_mint (begin_block env f m) = g_mint m /\ g_cred (begin_block env f m) = g_cred m.
+Proof.
+  intros env f m; unfold begin_block. destruct (1 <? b_h env); [|split; reflexivity].
+  assert (F : forall {X} (g : money -> X -> money) (l : list X),
+            (forall a x, g_mint (g a x) = g_mint a /\ g_cred (g a x) = g_cred a) ->
+            forall a, g_mint (fold_left g l a) = g_mint a /\ g_cred (fold_left g l a) = g_cred a).
+  { intros X g l Hg; induction l as [|x r IH]; intros a; cbn [fold_left]; [split; reflexivity|].
+    destruct (IH (g a x)) as [I1 I2]. destruct (Hg a x) as [G1 G2]. split; congruence. }
+  apply F. intros a i. unfold alloc_consumer. destruct (ci_client i); [|split; reflexivity].
+  apply F. intros b d. unfold alloc_one. destruct (alloc_body env f (ci_id i) d b) eqn:E; [|split; reflexivity].
+  eapply alloc_body_mint; exact E.
+Qed.
+
+(* every step changes the sum of the provider balances exactly by the coins entering from outside *)
+Lemma step_bank : forall s o d, sinv s ->
+  let tot := fun s => get (POOL, d) (bank (pm (prov s))) + get (DISTR, d) (bank (pm (prov s))) + get (OTHER, d) (bank (pm (prov s))) in
+  tot (step s o) = tot s + (if fst (inflow_of s o) =? d then snd (inflow_of s o) else 0).
+Proof.
+  intros s o d Hs tot. pose proof (step_sinv s o Hs) as Hs'.
+  destruct Hs as ((_ & Hb & _) & _). destruct Hs' as ((_ & Hb' & _) & _).
+  unfold tot. rewrite (Hb d), (Hb' d). clear Hb Hb' tot.
+  destruct s as [[m f] ch]. cbn [prov pm pf chains].
+  assert (R : forall ch0 memo d0 amt (ack tp : bool),
+    get (0, d) (g_mint (receive ch0 memo d0 amt ack tp f m)) = get (0, d) (g_mint m) + (if d0 =? d then (if ack then amt else 0) else 0)).
+  { intros. rewrite receive_cases. destruct ack; cbn [negb]; [|destruct (d0 =? d); lia].
+    destruct (credited_consumer ch0 memo true tp f); unfold m_recv2, m_recv1; cbv zeta; cbn [g_mint]; getadd; cbn [Z.eqb andb];
+      rewrite (Z.eqb_sym d d0); destruct (d0 =? d); lia. }
+  destruct o; cbn [step pstep prov pm pf chains inflow_of fst snd]; try (cbn [Z.eqb]; destruct (0 =? d); lia).
+  all: try solve [match goal with |- context [change_denoms_ok ?a ?b ?c] => destruct (change_denoms_ok a b c) end; cbn [pm]; destruct (0 =? d); lia].
+  all: try solve [match goal with |- context [set_commission_ok ?a ?b ?c ?e] => destruct (set_commission_ok a b c e) end; cbn [pm]; destruct (0 =? d); lia].
+  all: try solve [unfold credit; cbn [g_mint]; destruct (0 =? d); lia].
+  all: try solve [rewrite R; reflexivity].
+  all: try solve [match goal with |- context [begin_block ?e ?ff ?mm] => destruct (begin_block_mint e ff mm) as [E _]; rewrite E end; destruct (0 =? d); lia].
+  - unfold fund; cbn [g_mint]. getadd. cbn [Z.eqb andb]. rewrite (Z.eqb_sym d d0). destruct (d0 =? d); lia.
+  - destruct (nth_error ch (Z.to_nat k)) as [c|]; cbn [prov pm fst snd]; [|destruct (0 =? d); lia].
+    destruct (c_inflight c) as [|[d0 a] q]; cbn [prov pm fst snd]; [destruct (0 =? d); lia|].
+    destruct ack_ok; cbn [prov pm]; [rewrite R; reflexivity | destruct (pdenom c d0 =? d); lia].
+Qed.
+
+(* ================================================================== full statements of the property text, refuted *)
+(* "rounding remainders go to the community pool or stay credited": then everything the distribution module
+   account holds would be recorded as outstanding rewards or community pool *)
+Definition remainder_full : Prop := forall s0 ops, initial s0 -> Forall wf_op ops -> forall d,
+  let m := pm (prov (run_ops s0 ops)) in
+  dec_of_int (get (DISTR, d) (bank m)) = total d (outst m) + get (0, d) (cpool m).
+
+(* "no tokens are lost on the way": every credit is either still credited or was paid to validators or
+   the community pool *)
+Definition lossless_full : Prop := forall s0 ops, initial s0 -> Forall wf_op ops -> forall c d,
+  let m := pm (prov (run_ops s0 ops)) in
+  get (c, d) (g_cred m) = get (c, d) (alloc m) + get (c, d) (g_pv m) + get (c, d) (g_pc m).
+
+Definition w_conf : conf := mkF [] [] [0] [] 1 1 [mkI 0 true true true true] [(0, 0)] 0.
+Definition w_init : state := mkS (mkP empty_money w_conf) [].
+Definition w_env (h : Z) (fail_fund : list Z) : benv :=
+  mkB h 0 [(0, 100000000000000000); (1, 100000000000000000); (2, 100000000000000000)] false [] fail_fund [].
+(* three validators of equal power, 10^6 coins credited and funded, no community tax *)
+Definition w_dust_ops : list op :=
+  [PSetValset 0 [mkV 0 1 0; mkV 1 1 0; mkV 2 1 0]; PFund 0 1000000; PCredit 0 0 (1000000 * P); PBegin (w_env 5 [])].
+(* no eligible validator (empty set) and FundCommunityPool failing *)
+Definition w_forfeit_ops : list op := [PFund 0 1000; PCredit 0 0 (1000 * P); PBegin (w_env 5 [0])].
+
+Lemma w_initial : initial w_init.
+Proof. repeat split; constructor. Qed.
+
+Lemma w_dust_wf : Forall wf_op w_dust_ops.
+Proof.
+  unfold w_dust_ops. repeat constructor; cbn [wf_op cv_pow]; try (vm_compute; congruence).
+Qed.
+
+Lemma w_forfeit_wf : Forall wf_op w_forfeit_ops.
+Proof.
+  unfold w_forfeit_ops. repeat constructor; cbn [wf_op]; try (vm_compute; congruence).
+Qed.
+
+Lemma w_dust_values :
+  let m := pm (prov (run_ops w_init w_dust_ops)) in
+  get (DISTR, 0) (bank m) = 1000000 /\ get (POOL, 0) (bank m) = 0 /\
+  total 0 (outst m) = 999999999999999999000000 /\ get (0, 0) (cpool m) = 0 /\ get (0, 0) (alloc m) = 0 /\
+  get (0, 0) (g_dust m) = 1000000.
+Proof. vm_compute. repeat split; reflexivity. Qed.
+
+Lemma remainder_refuted : ~ remainder_full.
+Proof.
+  intros H. specialize (H w_init w_dust_ops w_initial w_dust_wf 0). cbv zeta in H.
+  destruct w_dust_values as (E1 & _ & E3 & E4 & _). cbv zeta in E1, E3, E4. rewrite E1, E3, E4 in H. vm_compute in H. discriminate.
+Qed.
+
+Lemma w_forfeit_values :
+  let m := pm (prov (run_ops w_init w_forfeit_ops)) in
+  get (0, 0) (g_cred m) = 1000 * P /\ get (0, 0) (alloc m) = 0 /\ get (0, 0) (g_pv m) = 0 /\ get (0, 0) (g_pc m) = 0 /\
+  get (0, 0) (g_forf m) = 1000 * P /\ get (POOL, 0) (bank m) = 1000 /\ get (DISTR, 0) (bank m) = 0.
+Proof. vm_compute. repeat split; reflexivity. Qed.
+
+Lemma lossless_refuted_forfeit : ~ lossless_full.
+Proof.
+  intros H. specialize (H w_init w_forfeit_ops w_initial w_forfeit_wf 0 0). cbv zeta in H.
+  destruct w_forfeit_values as (E1 & E2 & E3 & E4 & _). cbv zeta in E1, E2, E3, E4. rewrite E1, E2, E3, E4 in H. vm_compute in H. discriminate.
+Qed.
+
+Lemma lossless_refuted_dust : exists s0 ops c d, initial s0 /\ Forall wf_op ops /\
+  let m := pm (prov (run_ops s0 ops)) in
+  get (c, d) (g_cred m) - (get (c, d) (alloc m) + get (c, d) (g_pv m) + get (c, d) (g_pc m)) = 1000000.
+Proof.
+  exists w_init, w_dust_ops, 0, 0. split; [exact w_initial|]. split; [exact w_dust_wf|]. vm_compute. reflexivity.
+Qed.
+
+(* what holds instead: the distribution account holds exactly the recorded amounts plus the accumulated dust *)
+Lemma remainder_partial : forall s0 ops, initial s0 -> Forall wf_op ops -> forall d,
+  let m := pm (prov (run_ops s0 ops)) in
+  dec_of_int (get (DISTR, d) (bank m)) = total d (outst m) + get (0, d) (cpool m) + total d (g_dust m) /\
+  (forall c, 0 <= get (c, d) (g_dust m)).
+Proof.
+  intros s0 ops Hi Hw d m.
+  destruct (run_sinv ops s0 (initial_sinv s0 Hi)) as ((_ & _ & Hd & _) & _).
+  destruct (run_swf ops s0 Hw (initial_swf s0 Hi)) as ((Hn & _) & _).
+  split; [apply Hd|]. intros c. apply Hn.
+Qed.
+
+(* JoinHeight rule of CreateConsumerValidator *)
+Lemma epoch_join : forall h old vp,
+  cv_id (epoch_val h old vp) = fst vp /\ cv_pow (epoch_val h old vp) = snd vp /\
+  cv_join (epoch_val h old vp) =
+    match find (fun e => cv_id e =? fst vp) old with Some e => cv_join e | None => h end.
+Proof. intros h old vp; unfold epoch_val. destruct (find (fun e => cv_id e =? fst vp) old); repeat split; reflexivity. Qed.
+
+(* ---- a concrete end-to-end history used by the non-vacuity examples of Props/C16.v *)
+Definition x_conf : conf := mkF [] [] [1] [] 1 2 [mkI 0 true true true true] [(0, 0)] 0.
+Definition x_chain : cstate := mkC [] 0 750000000000000000 2 [0; 2] [0; 1; 2] [] 0 0 true [(0, 1); (1, 2); (2, 0)] [] [].
+Definition x_init : state := mkS (mkP empty_money x_conf) [x_chain].
+Definition x_env : benv := mkB 4 20000000000000000 [(0, 100000000000000000); (1, 100000000000000000); (2, 100000000000000000)] false [] [] [].
+Definition x_ops : list op :=
+  [PSetValset 0 [mkV 0 5 0; mkV 1 3 2; mkV 2 2 9]; CBlock 0 2 [(0, 1001); (1, 77)] true []; Relay 0 true;
+   PSetCommission 0 1 500000000000000000 true; PBegin x_env].
+Definition x_fin := run_ops x_init x_ops.
